@@ -1,5 +1,5 @@
 import Firefly.Proof.AmlFirstPassG
-import Firefly.Model.AmlShapes
+import Firefly.Proof.AmlMerge
 /-!
 The strict (second-pass) mode of the object parser: `parseDeferred` on one deferred block never ends in `.panic`
 and leaves a well-formed tree (`Props/C12.lean`, `deferred_block_no_panic_WF`).
@@ -16,12 +16,16 @@ open Firefly.Gen.C12
 def Sh (t : ObjectTree) (m : Nat) : Prop :=
   ∃ v, live t (Fi t m) = true ∧ live t (Nx t (Fi t m)) = true ∧ (slot t (Nx t (Fi t m))).value = .u64 v
 
-/-- every live `Method` other than `ex` is complete -/
-def MS (ex : Option Nat) (t : ObjectTree) : Prop :=
-  ∀ m, live t m = true → (slot t m).opcode = opMethod → some m ≠ ex → Sh t m
+/-- every live `Method` other than `ex` and outside of `X` is complete.  `X` = the incomplete `Method` objects a
+rejected earlier table left behind: unnamed and outside of every scope that is parsed, so that no lookup finds
+them (`UnF` below) -/
+def MS (X : Nat → Prop) (ex : Option Nat) (t : ObjectTree) : Prop :=
+  ∀ m, live t m = true → (slot t m).opcode = opMethod → some m ≠ ex → ¬ X m → Sh t m
 
-theorem MS.weaken {t : ObjectTree} (h : MS none t) (ex : Option Nat) : MS ex t :=
-  fun m hl ho _ => h m hl ho (by intro hc; cases hc)
+variable {X : Nat → Prop}
+
+theorem MS.weaken {t : ObjectTree} (h : MS X none t) (ex : Option Nat) : MS X ex t :=
+  fun m hl ho _ hx => h m hl ho (by intro hc; cases hc) hx
 
 /-- `Sh` only looks at three link/payload facts -/
 theorem Sh.transfer {t t' : ObjectTree} {m : Nat} (h : Sh t m) (hfi : Fi t' m = Fi t m)
@@ -155,39 +159,47 @@ structure SGrow (T : Nat → Prop) (c : Nat) (s s' : PState) : Prop where
   fiK : ∀ x, live s.tree x = true → ¬ T x → Fi s'.tree x = Fi s.tree x
   kidK : ∀ x, live s.tree x = true → C13.P s.tree x ≠ INV → ¬ T (C13.P s.tree x) →
     Nx s'.tree x = Nx s.tree x ∧ Pay (slot s'.tree x) = Pay (slot s.tree x)
-  mK : ∀ x, live s.tree x = true → ((slot s'.tree x).opcode = opMethod ↔ (slot s.tree x).opcode = opMethod)
+  payK : ∀ x, live s.tree x = true → ¬ T x → (C13.P s.tree x ≠ INV ∨ x = 0) → Pay (slot s'.tree x) = Pay (slot s.tree x)
+  kfr : KFr s s'
   same : s'.allBlocks = s.allBlocks ∧ s'.tableHandle = s.tableHandle ∧ s'.streamEnd = s.streamEnd
 
 variable {T : Nat → Prop}
+
+theorem SGrow.mK {c : Nat} {s s' : PState} (h : SGrow T c s s') (x : Nat) (hx : live s.tree x = true) :
+    (slot s'.tree x).opcode = opMethod ↔ (slot s.tree x).opcode = opMethod := h.kfr.mK x hx
+theorem SGrow.nameK {c : Nat} {s s' : PState} (h : SGrow T c s s') (x : Nat) (hx : live s.tree x = true)
+    (ho : (slot s.tree x).opcode = opMethod) : (slot s'.tree x).name = (slot s.tree x).name := h.kfr.nameK x hx ho
 
 /-- a step that leaves the tree and the offset alone (stack operations, `pkgEnd` changes) -/
 theorem SGrow.ofSame {s s' : PState} (ht : s'.tree = s.tree) (ho : s.r.offset ≤ s'.r.offset)
     (hsame : s'.allBlocks = s.allBlocks ∧ s'.tableHandle = s.tableHandle ∧ s'.streamEnd = s.streamEnd) : SGrow T 0 s s' :=
   ⟨ho, by rw [ht]; exact Nat.le_refl _, by rw [ht]; omega, fun _ _ => by rw [ht], fun _ h => by rw [ht]; exact h,
-   fun _ _ _ => by rw [ht], fun _ _ _ _ => by rw [ht]; exact ⟨rfl, rfl⟩, fun _ _ => by rw [ht], hsame⟩
+   fun _ _ _ => by rw [ht], fun _ _ _ _ => by rw [ht]; exact ⟨rfl, rfl⟩, fun _ _ _ _ => by rw [ht], KFr.ofTree ht, hsame⟩
 
 theorem SGrow.refl (s : PState) : SGrow T 0 s s := SGrow.ofSame rfl (Nat.le_refl _) ⟨rfl, rfl, rfl⟩
 
 theorem SGrow.trans {c1 c2 : Nat} {a b c : PState} (h1 : SGrow T c1 a b) (h2 : SGrow T c2 b c) : SGrow T (c1 + c2) a c := by
   refine ⟨Nat.le_trans h1.off h2.off, Nat.le_trans h1.pool h2.pool, by have := h1.budget; have := h2.budget; omega,
-    fun x hx => by rw [h2.oldP x (h1.oldLive x hx), h1.oldP x hx], fun x hx => h2.oldLive x (h1.oldLive x hx), ?_, ?_, ?_, ?_⟩
+    fun x hx => by rw [h2.oldP x (h1.oldLive x hx), h1.oldP x hx], fun x hx => h2.oldLive x (h1.oldLive x hx), ?_, ?_, ?_,
+    h1.kfr.trans h2.kfr h1.oldLive h2.oldLive, ?_⟩
   · intro x hx ht
     rw [h2.fiK x (h1.oldLive x hx) ht, h1.fiK x hx ht]
   · intro x hx hp ht
     obtain ⟨n1, p1⟩ := h1.kidK x hx hp ht
     obtain ⟨n2, p2⟩ := h2.kidK x (h1.oldLive x hx) (by rw [h1.oldP x hx]; exact hp) (by rw [h1.oldP x hx]; exact ht)
     exact ⟨by rw [n2, n1], by rw [p2, p1]⟩
-  · intro x hx
-    exact (h2.mK x (h1.oldLive x hx)).trans (h1.mK x hx)
+  · intro x hx ht hp
+    rw [h2.payK x (h1.oldLive x hx) ht (by rw [h1.oldP x hx]; exact hp), h1.payK x hx ht hp]
   · exact ⟨by rw [h2.same.1, h1.same.1], by rw [h2.same.2.1, h1.same.2.1], by rw [h2.same.2.2, h1.same.2.2]⟩
 
 theorem SGrow.weaken {c c' : Nat} {a b : PState} (h : SGrow T c a b) (hc : c ≤ c') : SGrow T c' a b :=
-  ⟨h.off, h.pool, by have := h.budget; omega, h.oldP, h.oldLive, h.fiK, h.kidK, h.mK, h.same⟩
+  ⟨h.off, h.pool, by have := h.budget; omega, h.oldP, h.oldLive, h.fiK, h.kidK, h.payK, h.kfr, h.same⟩
 
 /-- a smaller set of touched parents, up to objects that did not exist -/
 theorem SGrow.mono {T' : Nat → Prop} {c : Nat} {a b : PState} (h : SGrow T' c a b) (w : WF a.tree)
     (hT : ∀ x, live a.tree x = true → T' x → T x) : SGrow T c a b := by
-  refine ⟨h.off, h.pool, h.budget, h.oldP, h.oldLive, fun x hx ht => h.fiK x hx (fun hq => ht (hT x hx hq)), ?_, h.mK, h.same⟩
+  refine ⟨h.off, h.pool, h.budget, h.oldP, h.oldLive, fun x hx ht => h.fiK x hx (fun hq => ht (hT x hx hq)), ?_,
+    fun x hx ht hp => h.payK x hx (fun hq => ht (hT x hx hq)) hp, h.kfr, h.same⟩
   intro x hx hp ht
   refine h.kidK x hx hp (fun hq => ht (hT _ ?_ hq))
   rcases (w.lP hx).lp with h0 | h0
@@ -204,7 +216,7 @@ theorem SGrow.absorb {c : Nat} {s s1 s' : PState} (hs1 : s1 = { s with r := s1.r
   have g1 : SGrow T 0 s s1 := SGrow.ofLex hs1 (by omega)
   have t := g1.trans gr
   have ht : s1.tree = s.tree := by rw [hs1]
-  exact ⟨t.off, t.pool, by have := gr.budget; rw [ht] at this; omega, t.oldP, t.oldLive, t.fiK, t.kidK, t.mK, t.same⟩
+  exact ⟨t.off, t.pool, by have := gr.budget; rw [ht] at this; omega, t.oldP, t.oldLive, t.fiK, t.kidK, t.payK, t.kfr, t.same⟩
 
 /-- one fresh object -/
 theorem SGrow.ofFresh1 {n : Nat} {s s' : PState} (h : Fresh1 n s s') : SGrow T 1 s s' :=
@@ -212,25 +224,24 @@ theorem SGrow.ofFresh1 {n : Nat} {s s' : PState} (h : Fresh1 n s s') : SGrow T 1
    fun x hx => by unfold C13.P; rw [h.old x (h.ne hx)], fun x hx => by rw [h.livex x (h.ne hx)]; exact hx,
    fun x hx _ => by unfold Fi; rw [h.old x (h.ne hx)],
    fun x hx _ _ => ⟨by unfold Nx; rw [h.old x (h.ne hx)], by rw [h.old x (h.ne hx)]⟩,
-   fun x hx => by rw [h.old x (h.ne hx)], h.same⟩
+   fun x hx _ _ => by rw [h.old x (h.ne hx)], KFr.ofFresh h, h.same⟩
 
-/-- a payload-only step on an object that is detached or whose parent may be touched -/
-theorem SGrow.ofPay {obj : Nat} {s s' : PState} (h : PayOnly obj s s') (hp : C13.P s.tree obj = INV ∨ T (C13.P s.tree obj)) :
-    SGrow T 0 s s' := by
+/-- a payload-only step on an object that may be touched and is detached or hangs under a parent that may be touched -/
+theorem SGrow.ofPay {obj : Nat} {s s' : PState} (h : PayOnly obj s s') (hp : C13.P s.tree obj = INV ∨ T (C13.P s.tree obj))
+    (hT : T obj) (ho : live s.tree obj = true) : SGrow T 0 s s' := by
   refine ⟨h.off, by rw [h.links.size]; exact Nat.le_refl _, by rw [h.links.size]; have := h.off; omega,
-   fun x _ => h.links.p x, fun x hx => by rw [h.links.live]; exact hx, fun x _ _ => h.links.fi x, ?_, ?_, h.same⟩
-  · intro x _ hpx hT
+   fun x _ => h.links.p x, fun x hx => by rw [h.links.live]; exact hx, fun x _ _ => h.links.fi x, ?_, ?_, KFr.ofPay h ho, h.same⟩
+  · intro x _ hpx hTx
     have hne : x ≠ obj := by
       intro e
-      rw [e] at hpx hT
+      rw [e] at hpx hTx
       rcases hp with hp | hp
       · exact hpx hp
-      · exact hT hp
+      · exact hTx hp
     exact ⟨h.links.nx x, by rw [h.others x hne]⟩
-  · intro x _
-    by_cases hx : x = obj
-    · rw [hx]; exact h.mth
-    · rw [h.others x hx]
+  · intro x _ hTx _
+    have hne : x ≠ obj := fun e => hTx (e ▸ hT)
+    rw [h.others x hne]
 
 /-- growth up to `s1`, then an `append` under a parent that may be touched or did not exist, of an object that
 did not exist in the base state -/
@@ -246,7 +257,7 @@ theorem SGrow.thenAppend {c : Nat} {s s1 s2 : PState} (g : SGrow T c s s1) {obj 
   have hr : s2.r = s1.r := by rw [hs2]
   have hne : ∀ x, live s.tree x = true → x ≠ arg := fun x hx e => by rw [e, hnew] at hx; cases hx
   refine ⟨by rw [hr]; exact g.off, by rw [hsz]; exact g.pool, by rw [hsz, hr]; exact g.budget, ?_,
-    fun x hx => by rw [hl]; exact g.oldLive x hx, ?_, ?_, ?_, by rw [hs2]; exact g.same⟩
+    fun x hx => by rw [hl]; exact g.oldLive x hx, ?_, ?_, ?_, g.kfr.trans (KFr.ofSamePay sp) g.oldLive (fun x hx => by rw [hl]; exact hx), by rw [hs2]; exact g.same⟩
   · intro x hx
     rw [hP, if_neg (hne x hx)]
     exact g.oldP x hx
@@ -273,9 +284,8 @@ theorem SGrow.thenAppend {c : Nat} {s s1 s2 : PState} (g : SGrow T c s s1) {obj 
         · rw [hla, hno] at h0; cases h0
     · obtain ⟨n1, p1⟩ := g.kidK x hx hp hTx
       exact ⟨n1, by rw [hpay, p1]⟩
-  · intro x hx
-    have ho : (slot s2.tree x).opcode = (slot s1.tree x).opcode := congrArg (fun p => p.1) (sp.pay x)
-    rw [ho]; exact g.mK x hx
+  · intro x hx hTx hpx
+    rw [sp.pay x]; exact g.payK x hx hTx hpx
 
 /-- growth up to `s1`, then a `detach`, from a parent that may be touched or did not exist, of an object that
 did not exist in the base state -/
@@ -291,7 +301,7 @@ theorem SGrow.thenDetach {c : Nat} {s s1 s2 : PState} (g : SGrow T c s s1) {obj 
   have hr : s2.r = s1.r := by rw [hs2]
   have hne : ∀ x, live s.tree x = true → x ≠ arg := fun x hx e => by rw [e, hnew] at hx; cases hx
   refine ⟨by rw [hr]; exact g.off, by rw [hsz]; exact g.pool, by rw [hsz, hr]; exact g.budget, ?_,
-    fun x hx => by rw [hl]; exact g.oldLive x hx, ?_, ?_, ?_, by rw [hs2]; exact g.same⟩
+    fun x hx => by rw [hl]; exact g.oldLive x hx, ?_, ?_, ?_, g.kfr.trans (KFr.ofSamePay sp) g.oldLive (fun x hx => by rw [hl]; exact hx), by rw [hs2]; exact g.same⟩
   · intro x hx
     rw [hP, if_neg (hne x hx)]
     exact g.oldP x hx
@@ -318,28 +328,27 @@ theorem SGrow.thenDetach {c : Nat} {s s1 s2 : PState} (g : SGrow T c s s1) {obj 
         · rw [hpp, hno] at h0; cases h0
     · obtain ⟨n1, p1⟩ := g.kidK x hx hp hTx
       exact ⟨n1, by rw [hpay, p1]⟩
-  · intro x hx
-    have ho : (slot s2.tree x).opcode = (slot s1.tree x).opcode := congrArg (fun p => p.1) (sp.pay x)
-    rw [ho]; exact g.mK x hx
+  · intro x hx hTx hpx
+    rw [sp.pay x]; exact g.payK x hx hTx hpx
 
 /-- the first-pass relations of the mode-agnostic argument parsers as strict growth -/
 theorem SGrow.ofGrowFrm {c g : Nat} {s s' : PState} (gr : Grow c g s s') (fr : FrmS T s s') : SGrow T c s s' :=
-  ⟨gr.off, gr.pool, gr.budget, gr.oldP, gr.oldLive, fr.fiK, fr.kidK, fr.mK, gr.same⟩
+  ⟨gr.off, gr.pool, gr.budget, gr.oldP, gr.oldLive, fr.fiK, fr.kidK, fr.payK, fr.kfr, gr.same⟩
 
 /-! ## `MS` along the steps of the parser -/
 
-theorem MS.ofSome {t : ObjectTree} {c : Nat} (h : MS (some c) t) (hc : (slot t c).opcode ≠ opMethod) : MS none t := by
-  intro m hl ho _
-  exact h m hl ho (by intro e; cases e; exact hc ho)
+theorem MS.ofSome {t : ObjectTree} {c : Nat} (h : MS X (some c) t) (hc : (slot t c).opcode ≠ opMethod) : MS X none t := by
+  intro m hl ho _ hx
+  exact h m hl ho (by intro e; cases e; exact hc ho) hx
 
 /-- a fresh object: it is not a `Method`, or it is the exception -/
-theorem MS.fresh {ex : Option Nat} {n : Nat} {s s' : PState} (hms : MS ex s.tree) (h : Fresh1 n s s')
-    (hn : (slot s'.tree n).opcode = opMethod → ex = some n) : MS ex s'.tree := by
-  intro m hl ho hex
+theorem MS.fresh {ex : Option Nat} {n : Nat} {s s' : PState} (hms : MS X ex s.tree) (h : Fresh1 n s s')
+    (hn : (slot s'.tree n).opcode = opMethod → ex = some n) : MS X ex s'.tree := by
+  intro m hl ho hex hx
   by_cases hmn : m = n
   · subst hmn; exact absurd (hn ho).symm hex
   · have hl0 : live s.tree m = true := by rw [← h.livex m hmn]; exact hl
-    have hsh := hms m hl0 (by rw [← h.old m hmn]; exact ho) hex
+    have hsh := hms m hl0 (by rw [← h.old m hmn]; exact ho) hex hx
     obtain ⟨v, h1, h2, _⟩ := hsh
     have hne : ∀ x, live s.tree x = true → x ≠ n := fun x hx => h.ne hx
     apply Sh.transfer ⟨v, h1, h2, ‹_›⟩
@@ -349,15 +358,15 @@ theorem MS.fresh {ex : Option Nat} {n : Nat} {s s' : PState} (hms : MS ex s.tree
     · rw [h.old _ (hne _ h2)]
 
 /-- a payload-only step on an object that is not the second argument of a method -/
-theorem MS.pay {ex : Option Nat} {obj : Nat} {s s' : PState} (hms : MS ex s.tree) (w : WF s.tree) (h : PayOnly obj s s')
-    (hp : C13.P s.tree obj = INV ∨ (slot s.tree (C13.P s.tree obj)).opcode ≠ opMethod) : MS ex s'.tree := by
-  intro m hl ho hex
+theorem MS.pay {ex : Option Nat} {obj : Nat} {s s' : PState} (hms : MS X ex s.tree) (w : WF s.tree) (h : PayOnly obj s s')
+    (hp : C13.P s.tree obj = INV ∨ (slot s.tree (C13.P s.tree obj)).opcode ≠ opMethod) : MS X ex s'.tree := by
+  intro m hl ho hex hx
   have hl0 : live s.tree m = true := by rw [← h.links.live]; exact hl
   have ho0 : (slot s.tree m).opcode = opMethod := by
     by_cases hm : m = obj
     · rw [hm] at ho ⊢; exact h.mth.1 ho
     · rw [← h.others m hm]; exact ho
-  have hsh := hms m hl0 ho0 hex
+  have hsh := hms m hl0 ho0 hex hx
   obtain ⟨_, p2, _, _⟩ := hsh.parents w hl0
   have hm0 : m ≠ INV := live_ne_INV w.size_le hl0
   apply hsh.transfer (h.links.fi m) (h.links.nx _) (fun x hx => by rw [h.links.live]; exact hx)
@@ -370,41 +379,41 @@ theorem MS.pay {ex : Option Nat} {obj : Nat} {s s' : PState} (hms : MS ex s.tree
   rw [h.others _ hne]
 
 /-- `append` -/
-theorem MS.append {ex : Option Nat} {t t' : ObjectTree} (hms : MS ex t) (w : WF t) {obj arg : Nat}
+theorem MS.append {ex : Option Nat} {t t' : ObjectTree} (hms : MS X ex t) (w : WF t) {obj arg : Nat}
     (ha : C13.P t arg = INV) (ho : live t obj = true)
     (hl : ∀ x, live t' x = live t x) (sp : SamePay t t')
     (hNx : ∀ x, Nx t' x = if x = arg then INV else if x = La t obj ∧ La t obj ≠ INV then arg else Nx t x)
-    (hFi : ∀ x, Fi t' x = if x = obj ∧ La t obj = INV then arg else Fi t x) : MS ex t' := by
-  intro m hm hop hex
+    (hFi : ∀ x, Fi t' x = if x = obj ∧ La t obj = INV then arg else Fi t x) : MS X ex t' := by
+  intro m hm hop hex hx
   have hm0 : live t m = true := by rw [← hl]; exact hm
   have hop0 : (slot t m).opcode = opMethod := by
     have : (slot t' m).opcode = (slot t m).opcode := congrArg (fun p => p.1) (sp.pay m)
     rw [← this]; exact hop
-  exact (hms m hm0 hop0 hex).append w hm0 ha ho hl sp hNx hFi
+  exact (hms m hm0 hop0 hex hx).append w hm0 ha ho hl sp hNx hFi
 
 /-- `detach` from an object that is not a method -/
-theorem MS.detach {ex : Option Nat} {t t' : ObjectTree} (hms : MS ex t) (w : WF t) {obj arg : Nat}
+theorem MS.detach {ex : Option Nat} {t t' : ObjectTree} (hms : MS X ex t) (w : WF t) {obj arg : Nat}
     (ha : live t arg = true) (hp : C13.P t arg = obj)
-    (hne : ∀ m, m = obj → (slot t m).opcode = opMethod → some m ≠ ex → arg ≠ Fi t m ∧ arg ≠ Nx t (Fi t m))
+    (hne : ∀ m, m = obj → (slot t m).opcode = opMethod → some m ≠ ex → ¬ X m → arg ≠ Fi t m ∧ arg ≠ Nx t (Fi t m))
     (hl : ∀ x, live t' x = live t x) (sp : SamePay t t')
     (hNx : ∀ x, Nx t' x = if x = arg then INV else if x = Pv t arg ∧ Pv t arg ≠ INV then Nx t arg else Nx t x)
-    (hFi : ∀ x, Fi t' x = if x = obj ∧ Fi t obj = arg then Nx t arg else Fi t x) : MS ex t' := by
-  intro m hm hop hex
+    (hFi : ∀ x, Fi t' x = if x = obj ∧ Fi t obj = arg then Nx t arg else Fi t x) : MS X ex t' := by
+  intro m hm hop hex hx
   have hm0 : live t m = true := by rw [← hl]; exact hm
   have hop0 : (slot t m).opcode = opMethod := by
     have : (slot t' m).opcode = (slot t m).opcode := congrArg (fun p => p.1) (sp.pay m)
     rw [← this]; exact hop
-  exact (hms m hm0 hop0 hex).detach w hm0 ha hp (fun e => hne m e hop0 hex) hl sp hNx hFi
+  exact (hms m hm0 hop0 hex hx).detach w hm0 ha hp (fun e => hne m e hop0 hex hx) hl sp hNx hFi
 
 /-- a frame whose touched parents contain no complete method -/
-theorem MS.frm {ex : Option Nat} {s s' : PState} (hms : MS ex s.tree) (w : WF s.tree) (fr : FrmS T s s')
-    (hT : ∀ m, live s.tree m = true → (slot s.tree m).opcode = opMethod → some m ≠ ex → ¬ T m) : MS ex s'.tree := by
-  intro m hl ho hex
+theorem MS.frm {ex : Option Nat} {s s' : PState} (hms : MS X ex s.tree) (w : WF s.tree) (fr : FrmS T s s')
+    (hT : ∀ m, live s.tree m = true → (slot s.tree m).opcode = opMethod → some m ≠ ex → ¬ T m) : MS X ex s'.tree := by
+  intro m hl ho hex hx
   cases hl0 : live s.tree m with
   | false => exact absurd ho (fr.newOp m hl0 hl)
   | true =>
     have ho0 := (fr.mK m hl0).1 ho
-    have hsh := hms m hl0 ho0 hex
+    have hsh := hms m hl0 ho0 hex hx
     obtain ⟨p1, p2, n1, n2⟩ := hsh.parents w hl0
     have hm0 : m ≠ INV := live_ne_INV w.size_le hl0
     have hnT := hT m hl0 ho0 hex
@@ -454,6 +463,298 @@ theorem StackNM.step {s s' : PState} {d : Bytes} (h : StackNM s) (hf : FP d s)
   rcases hst x hx with h0 | h0
   · exact fun hq => h x h0 ((hmK x (hf.scopes x h0)).1 hq)
   · exact h0
+
+/-! ## the lead byte of a parsed name string -/
+
+theorem sliceBytes_head (d : Bytes) (off len : Nat) (b : UInt8) (h : (sliceBytes d off len)[0]? = some b) :
+    len ≠ 0 ∧ d[off]? = some b := by
+  unfold sliceBytes at h
+  rw [Array.getElem?_toList] at h
+  simp only [Array.getElem?_extract] at h
+  split at h
+  · rename_i hlt
+    refine ⟨by omega, ?_⟩
+    simpa using h
+  · cases h
+
+theorem skipNamePrefix_lead (d : Bytes) (f : Nat) (r : Reader) (h : Inv d r) :
+    wp (skipNamePrefix d f) (fun b r' => Inv d r' ∧ r.offset ≤ r'.offset ∧
+      (r.offset < r'.offset → ∃ c, d[r.offset]? = some c ∧ c ≠ 0) ∧ (b = true → r'.offset < r'.pkgEnd)) r := by
+  induction f generalizing r with
+  | zero => unfold skipNamePrefix; exact wp_pure ⟨h, Nat.le_refl _, fun hq => by omega, by simp⟩
+  | succ f ih =>
+    unfold skipNamePrefix
+    apply wp_bind
+    apply wp_peekByte h
+    · intro _; exact wp_pure ⟨h, Nat.le_refl _, fun hq => by omega, by simp⟩
+    · intro b hlt hb
+      dsimp only
+      split
+      · exact wp_pure ⟨h, Nat.le_refl _, fun hq => by omega, fun _ => hlt⟩
+      · rename_i hpre
+        apply wp_bind
+        apply wp_readByte h
+        · intro hc; omega
+        · intro b' _ _
+          have h' : Inv d { r with offset := r.offset + 1 } := ⟨by show r.offset + 1 ≤ d.size; have := h.2; omega, h.2⟩
+          refine wp_mono (ih _ h') ?_
+          intro a r' ⟨hi, hle, _, hbt⟩
+          refine ⟨hi, by simp only at hle; omega, fun _ => ⟨b, hb, ?_⟩, hbt⟩
+          intro hz
+          apply hpre
+          rw [hz]
+          decide
+theorem parseNamePath_null (d : Bytes) (hd : d.size + 1024 ≤ 4294967296) (next start : Nat) (r : Reader) (h : Inv d r) :
+    wp (parseNamePath d next start) (fun a r' => next = 0 → a = some (start + 1) ∧ r' = r) r := by
+  by_cases hn : next = 0
+  · subst hn
+    unfold parseNamePath
+    rw [if_pos rfl]
+    exact wp_pure (fun _ => ⟨rfl, rfl⟩)
+  · exact wp_mono (parseNamePath_spec d hd next start r h) (fun _ _ _ h0 => absurd h0 hn)
+
+/-- a name string that was parsed and is not empty starts with a byte other than zero: a prefix character, the
+dual / multi name prefix or a lead name character -/
+theorem parseNameString_lead (d : Bytes) (hd : d.size + 1024 ≤ 4294967296) (r : Reader) (h : Inv d r) :
+    wp (parseNameString d) (fun a _ => a.2 = .ok → a.1.len ≠ 0 → ∃ c, d[r.offset]? = some c ∧ c ≠ 0) r := by
+  unfold parseNameString
+  have body : ∀ data : Option Nat,
+      wp (do
+        let startOffset ← offset
+        if (← skipNamePrefix d (d.size + 1)) then
+          let next := ((← readByte d).getD 0).toNat
+          match ← parseNamePath d next startOffset with
+          | none => return ({}, PRes.failed)
+          | some startOffset =>
+            return ({ data := data, len := u32 ((← offset) + 4294967296 - startOffset) }, PRes.ok)
+        else return ({}, PRes.failed) : LexM (Slice × PRes))
+      (fun a _ => a.2 = .ok → a.1.len ≠ 0 → ∃ c, d[r.offset]? = some c ∧ c ≠ 0) r := by
+    intro data
+    apply wp_bind; apply wp_offset
+    apply wp_bind
+    refine wp_mono (skipNamePrefix_lead d _ r h) ?_
+    intro b r1 ⟨hi1, hle1, hlead, hbt⟩
+    split
+    · rename_i hb
+      have hlt1 := hbt hb
+      apply wp_bind
+      apply wp_readByte hi1
+      · intro hc; omega
+      · intro b1 _ hb1
+        have hi2 : Inv d { r1 with offset := r1.offset + 1 } := ⟨by show r1.offset + 1 ≤ d.size; have := hi1.2; omega, hi1.2⟩
+        apply wp_bind
+        by_cases hz : b1.toNat = 0
+        · refine wp_mono (parseNamePath_null d hd _ r.offset _ hi2) ?_
+          intro a r3 hnull
+          obtain ⟨ha, hr3⟩ := hnull (by show ((some b1).getD 0).toNat = 0; exact hz)
+          subst ha; subst hr3
+          dsimp only
+          apply wp_bind; apply wp_offset
+          refine wp_pure ?_
+          intro _ hlen
+          by_cases hmv : r.offset < r1.offset
+          · exact hlead hmv
+          · exfalso; apply hlen
+            have : r1.offset = r.offset := by omega
+            show u32 (r1.offset + 1 + 4294967296 - (r.offset + 1)) = 0
+            rw [this]; unfold u32
+            omega
+        · refine wp_mono (parseNamePath_spec d hd _ r.offset _ hi2) ?_
+          intro a r3 _
+          split
+          · exact wp_pure (fun hc => by cases hc)
+          · apply wp_bind; apply wp_offset
+            refine wp_pure ?_
+            intro _ _
+            by_cases hmv : r.offset < r1.offset
+            · exact hlead hmv
+            · have : r1.offset = r.offset := by omega
+              rw [this] at hb1
+              refine ⟨b1, hb1, ?_⟩
+              intro hq; apply hz; rw [hq]; rfl
+    · exact wp_pure (fun hc => by cases hc)
+  apply wp_bind
+  apply wp_dataPtr h
+  · intro _; exact body none
+  · intro _; exact body (some r.offset)
+
+/-- `parseNameString` with the lead-byte fact -/
+theorem rel_parseNameString' (d : Bytes) (hd : d.size + 1024 ≤ 4294967296) : LexRel d (parseNameString d) (fun r a r' =>
+    NameRel d r a r' ∧ (a.2 = .ok → ∀ b, (sliceExpr d a.1)[0]? = some b → b ≠ 0)) := by
+  intro r hr
+  obtain ⟨a, r', e, hi, hR⟩ := rel_parseNameString d hd r hr
+  obtain ⟨a1, r1, e1, _, _, hdat⟩ := parseNameString_slice d hd r hr
+  obtain ⟨a2, r2, e2, hlead⟩ := parseNameString_lead d hd r hr
+  rw [e] at e1 e2
+  cases e1; cases e2
+  refine ⟨a, r', e, hi, hR, ?_⟩
+  intro hok b hb
+  have hd0 := hdat hok
+  unfold sliceExpr at hb
+  rw [hd0] at hb
+  obtain ⟨hlen, hb0⟩ := sliceBytes_head d _ _ b hb
+  obtain ⟨c, hc, hcn⟩ := hlead hok hlen
+  rw [hc] at hb0
+  cases hb0
+  exact hcn
+
+/-! ## incomplete methods nobody can find -/
+
+theorem chain_transfer' {t t' : ObjectTree} (hl : ∀ y, live t y = true → live t' y = true) :
+    ∀ (l : List Nat) (x : Nat), Chain t (C13.P t) x l → (∀ y ∈ l, C13.P t' y = C13.P t y) → Chain t' (C13.P t') x l := by
+  intro l
+  induction l with
+  | nil => intro x h _; exact h
+  | cons y ys ih =>
+    intro x h hp
+    obtain ⟨rfl, hy, hc⟩ := h
+    refine ⟨rfl, hl _ hy, ?_⟩
+    rw [hp x (List.mem_cons_self ..)]
+    exact ih _ hc (fun z hz => hp z (List.mem_cons_of_mem _ hz))
+
+theorem chain_live {t : ObjectTree} : ∀ (l : List Nat) (x : Nat), Chain t (C13.P t) x l → ∀ y ∈ l, live t y = true := by
+  intro l
+  induction l with
+  | nil => intro x _ y hy; cases hy
+  | cons z zs ih =>
+    intro x h y hy
+    obtain ⟨rfl, hz, hc⟩ := h
+    rcases List.mem_cons.1 hy with e | e
+    · rw [e]; exact hz
+    · exact ih _ hc y e
+
+/-- objects that existed keep their ancestors when the objects that existed keep their parents -/
+theorem anc_old {t t' : ObjectTree} (w : WF t) (w' : WF t') (hl : ∀ y, live t y = true → live t' y = true)
+    (hp : ∀ y, live t y = true → C13.P t' y = C13.P t y) {a r0 : Nat} (hr : live t r0 = true) (h : anc t' a r0) : anc t a r0 := by
+  obtain ⟨l, hc, _⟩ := w.parChain r0 (Or.inr hr)
+  have hc' : Chain t' (C13.P t') r0 l := chain_transfer' hl l r0 hc (fun y hy => hp y (chain_live l r0 hc y hy))
+  obtain ⟨l', hc2, hm⟩ := h
+  have : l' = l := chain_det (C13.P t') w'.size_le _ _ _ hc2 hc'
+  rw [this] at hm
+  exact ⟨l, hc, hm⟩
+
+theorem not_anc_INV {t : ObjectTree} (w : WF t) (a : Nat) : ¬ anc t a INV := by
+  rintro ⟨l, hc, hm⟩
+  cases l with
+  | nil => cases hm
+  | cons y ys =>
+    obtain ⟨rfl, hy, _⟩ := hc
+    exact live_ne_INV w.size_le hy rfl
+
+/-- an ancestor of an element of the parent chain of `c` is an ancestor of `c` -/
+theorem anc_of_mem_chain {t : ObjectTree} (w : WF t) {a b : Nat} : ∀ (l : List Nat) (c : Nat), Chain t (C13.P t) c l → b ∈ l →
+    anc t a b → anc t a c := by
+  intro l
+  induction l with
+  | nil => intro c _ hm _; cases hm
+  | cons x xs ih =>
+    intro c hc hm hab
+    obtain ⟨rfl, hx, hc'⟩ := hc
+    rcases List.mem_cons.1 hm with e | e
+    · rw [← e]; exact hab
+    · have := ih _ hc' e hab
+      by_cases hca : c = a
+      · rw [hca]; exact w.anc_self (hca ▸ hx)
+      · exact (w.anc_step hx hca).2 this
+
+open Firefly.AmlTree.ObjectTree in
+theorem closestLoop_mem {t : ObjectTree} (hs : t.pool.size ≤ INV) (named : Nat → Option Bool)
+    (hn : ∀ i, live t i = true → (named (slot t i).infoIndex).isSome = true) :
+    ∀ (l : List Nat) (f a : Nat), Chain t (C13.P t) a l → l.length ≤ f →
+      ∃ r, closestLoop named t f a = .ok r ∧ (r = INV ∨ r ∈ l) := by
+  intro l
+  induction l with
+  | nil =>
+    intro f a hc _
+    have : a = INV := hc
+    cases f <;> exact ⟨INV, by simp [closestLoop, this, INV], Or.inl rfl⟩
+  | cons x xs ih =>
+    intro f a hc hf
+    obtain ⟨rfl, hl, hc'⟩ := hc
+    cases f with
+    | zero => simp at hf
+    | succ f =>
+      have hne : a ≠ InvalidIndex := live_ne_INV hs hl
+      simp only [closestLoop, hne, if_false, objectAt_live hl, deref_some, obj_eq (live_lt hl), bind, Except.bind]
+      by_cases hsc : (slot t a).opcode = pOpScope
+      · simp only [hsc, if_true]; exact ⟨_, rfl, Or.inl rfl⟩
+      · simp only [hsc, if_false]
+        have := hn a hl
+        cases hnm : named (slot t a).infoIndex with
+        | none => simp [hnm] at this
+        | some b =>
+          cases b with
+          | true => exact ⟨a, rfl, Or.inr (List.mem_cons_self ..)⟩
+          | false =>
+            obtain ⟨r, er, hr⟩ := ih f _ hc' (by simpa using hf)
+            refine ⟨r, er, ?_⟩
+            rcases hr with hr | hr
+            · exact Or.inl hr
+            · exact Or.inr (List.mem_cons_of_mem _ hr)
+
+/-- the closest named ancestor is an ancestor: what encloses it encloses the scope it was looked up from -/
+theorem closest_anc {t : ObjectTree} (w : WF t) (named : Nat → Option Bool)
+    (hn : ∀ i, live t i = true → (named (slot t i).infoIndex).isSome = true) (i : Nat) (hl : live t i = true) :
+    ∃ r, t.ClosestNamedAncestor named (some i) = .ok r ∧ (r = INV ∨ (live t r = true ∧ ∀ a, anc t a r → anc t a i)) := by
+  obtain ⟨l, hc, hlen⟩ := w.parChain (C13.P t i) (w.links hl).1
+  obtain ⟨r, er, hr⟩ := closestLoop_mem w.size_le named hn l t.fuel _ hc (by simp [ObjectTree.fuel]; omega)
+  refine ⟨r, by simpa [ObjectTree.ClosestNamedAncestor, obj_eq (live_lt hl), bind, Except.bind, C13.P] using er, ?_⟩
+  rcases hr with hr | hr
+  · exact Or.inl hr
+  · have hci : Chain t (C13.P t) i (i :: l) := ⟨rfl, hl, hc⟩
+    exact Or.inr ⟨chain_live l _ hc r hr, fun a ha => anc_of_mem_chain w (i :: l) i hci (List.mem_cons_of_mem _ hr) ha⟩
+
+/-- the objects of `X` are live, and those that are methods have no name, do not enclose the root and do not
+enclose `ref`: no lookup from a scope at or below `ref` finds them -/
+def UnF (X : Nat → Prop) (s : PState) (ref : Nat) : Prop :=
+  ∀ g, X g → live s.tree g = true ∧ ((slot s.tree g).opcode = opMethod →
+    (slot s.tree g).name.b0 = 0 ∧ ¬ anc s.tree g 0 ∧ ¬ anc s.tree g ref)
+
+theorem UnF.notFresh {s : PState} {ref c : Nat} (h : UnF X s ref) (hc : live s.tree c = false) : ¬ X c := by
+  intro hx
+  rw [(h c hx).1] at hc; cases hc
+
+theorem UnF.toINV {s : PState} {ref : Nat} (h : UnF X s ref) (w : WF s.tree) : UnF X s INV :=
+  fun g hg => ⟨(h g hg).1, fun ho => ⟨((h g hg).2 ho).1, ((h g hg).2 ho).2.1, not_anc_INV w _⟩⟩
+
+theorem UnF.notSelf {s : PState} {ref : Nat} (h : UnF X s ref) (w : WF s.tree) (hl : live s.tree ref = true)
+    (ho : (slot s.tree ref).opcode = opMethod) : ¬ X ref :=
+  fun hx => ((h ref hx).2 ho).2.2 (w.anc_self hl)
+
+/-- the same tree -/
+theorem UnF.ofTree {s s' : PState} {ref : Nat} (h : UnF X s ref) (ht : s'.tree = s.tree) : UnF X s' ref := by
+  intro g hg; rw [ht]; exact h g hg
+
+/-- along strict growth, for a reference that existed (or none) -/
+theorem UnF.grow {s s' : PState} {ref c : Nat} (h : UnF X s ref) (g : SGrow T c s s') (w : WF s.tree) (w' : WF s'.tree)
+    (hroot : live s.tree 0 = true) (hr : ref = INV ∨ live s.tree ref = true) : UnF X s' ref := by
+  intro x hx
+  obtain ⟨hl, hm⟩ := h x hx
+  refine ⟨g.oldLive x hl, fun ho' => ?_⟩
+  have ho := (g.mK x hl).1 ho'
+  obtain ⟨hn, h0, hrf⟩ := hm ho
+  refine ⟨by rw [g.nameK x hl ho]; exact hn, fun ha => h0 (anc_old w w' g.oldLive g.oldP hroot ha), ?_⟩
+  rcases hr with hr | hr
+  · rw [hr]; exact not_anc_INV w' _
+  · exact fun ha => hrf (anc_old w w' g.oldLive g.oldP hr ha)
+
+/-- a new reference under the old one -/
+theorem UnF.child {s : PState} {ref c : Nat} (h : UnF X s ref) (w : WF s.tree) (hc : live s.tree c = true)
+    (hp : C13.P s.tree c = ref) (hx : ¬ X c) : UnF X s c := by
+  intro g hg
+  obtain ⟨hl, hm⟩ := h g hg
+  refine ⟨hl, fun ho => ⟨(hm ho).1, (hm ho).2.1, ?_⟩⟩
+  have hne : c ≠ g := fun e => hx (e ▸ hg)
+  intro ha
+  have := (w.anc_step hc hne).1 ha
+  rw [hp] at this
+  exact (hm ho).2.2 this
+
+/-- a detached reference -/
+theorem UnF.orphan {s : PState} {ref c : Nat} (h : UnF X s ref) (w : WF s.tree) (hc : live s.tree c = true)
+    (hp : C13.P s.tree c = INV) (hx : ¬ X c) : UnF X s c := by
+  have := (h.toINV w).child w hc hp hx
+  exact this
 
 /-! ## facts about the opcode table -/
 
@@ -653,14 +954,14 @@ def ParNM (s : PState) (curObj : Nat) : Prop :=
 
 /-- the method invariant while argument `j` of `curObj` (table row `info`) is read: a `Method` gets its name and
 its flags first -/
-def MSx (s : PState) (info curObj j : Nat) : Prop :=
+def MSx (X : Nat → Prop) (s : PState) (info curObj j : Nat) : Prop :=
   if info = methodInfo then
-    (j ≤ 1 → MS (some curObj) s.tree ∧ Fi s.tree curObj = INV ∧ La s.tree curObj = INV) ∧
-    (j = 2 → MS (some curObj) s.tree ∧ La s.tree curObj = Fi s.tree curObj ∧ live s.tree (Fi s.tree curObj) = true) ∧
-    (3 ≤ j → MS none s.tree)
-  else MS none s.tree
+    (j ≤ 1 → MS X (some curObj) s.tree ∧ Fi s.tree curObj = INV ∧ La s.tree curObj = INV) ∧
+    (j = 2 → MS X (some curObj) s.tree ∧ La s.tree curObj = Fi s.tree curObj ∧ live s.tree (Fi s.tree curObj) = true) ∧
+    (3 ≤ j → MS X none s.tree)
+  else MS X none s.tree
 
-theorem MSx.toSome {s : PState} {info curObj j : Nat} (h : MSx s info curObj j) : MS (some curObj) s.tree := by
+theorem MSx.toSome {s : PState} {info curObj j : Nat} (h : MSx X s info curObj j) : MS X (some curObj) s.tree := by
   unfold MSx at h
   split at h
   · by_cases h1 : j ≤ 1
@@ -671,17 +972,17 @@ theorem MSx.toSome {s : PState} {info curObj j : Nat} (h : MSx s info curObj j) 
   · exact h.weaken _
 
 /-- a new childless object -/
-theorem MSx.ofBlank' {s : PState} {info c : Nat} (h : MS (some c) s.tree)
+theorem MSx.ofBlank' {s : PState} {info c : Nat} (h : MS X (some c) s.tree)
     (hnm : info ≠ methodInfo → (slot s.tree c).opcode ≠ opMethod) (w : WF s.tree) (hl : live s.tree c = true)
-    (hfi : Fi s.tree c = INV) : MSx s info c 0 := by
+    (hfi : Fi s.tree c = INV) : MSx X s info c 0 := by
   unfold MSx
   split
   · refine ⟨fun _ => ⟨h, hfi, (w.lP hl).ends.1 hfi⟩, fun h2 => by omega, fun h3 => by omega⟩
   · rename_i hi
     exact h.ofSome (hnm hi)
 
-theorem MSx.ofBlank {s : PState} {info c : Nat} (h : MS none s.tree) (w : WF s.tree) (hl : live s.tree c = true)
-    (hfi : Fi s.tree c = INV) : MSx s info c 0 := by
+theorem MSx.ofBlank {s : PState} {info c : Nat} (h : MS X none s.tree) (w : WF s.tree) (hl : live s.tree c = true)
+    (hfi : Fi s.tree c = INV) : MSx X s info c 0 := by
   unfold MSx
   split
   · refine ⟨fun _ => ⟨h.weaken _, hfi, (w.lP hl).ends.1 hfi⟩, fun h2 => by omega, fun h3 => by omega⟩
@@ -692,42 +993,43 @@ def PostS (d : Bytes) (T : Nat → Prop) (c : Nat) (s s' : PState) (ok extra : P
   FP d s' ∧ SGrow T c s s' ∧ s.scopeStack.size ≤ s'.scopeStack.size ∧ (ok → s'.scopeStack = s.scopeStack ∧ extra)
 
 /-- panic-freedom (and what they guarantee) of the mutually recursive functions with fuel `f` in the strict mode -/
-structure SNP (d : Bytes) (f : Nat) : Prop where
-  next : ∀ {s : PState}, SP d s → MS none s.tree → s.scopeStack.size ≠ 0 → Bud d 0 s →
-    NPs (parseNextObject d f) s (fun res s' => PostS d (TTop s) 0 s s' (res ≠ .failed) (MS none s'.tree))
-  namePath : ∀ {s : PState}, SP d s → MS none s.tree → s.scopeStack.size ≠ 0 → Bud d 0 s →
+structure SNP (X : Nat → Prop) (d : Bytes) (f : Nat) : Prop where
+  next : ∀ {s : PState}, SP d s → MS X none s.tree → UnF X s (topOf s) → s.scopeStack.size ≠ 0 → Bud d 0 s →
+    NPs (parseNextObject d f) s (fun res s' => PostS d (TTop s) 0 s s' (res ≠ .failed) (MS X none s'.tree))
+  namePath : ∀ {s : PState}, SP d s → MS X none s.tree → UnF X s (topOf s) → s.scopeStack.size ≠ 0 → Bud d 0 s →
     NPs (parseNamePathOrMethodCall d f) s (fun res s' => PostS d (TTop s) 0 s s' (res ≠ .failed)
-      (MS none s'.tree ∧ live s.tree (La s'.tree (topOf s)) = false ∧ live s'.tree (La s'.tree (topOf s)) = true))
-  termList : ∀ {s : PState}, SP d s → MS none s.tree → s.scopeStack.size ≠ 0 → Bud d 0 s →
-    NPs (termListLoop d f) s (fun b s' => PostS d (TTop s) 0 s s' (b = true) (MS none s'.tree))
-  methodArgs : ∀ {s : PState} (n : Nat), SP d s → MS none s.tree → s.scopeStack.size ≠ 0 → Bud d 0 s →
-    NPs (methodArgsLoop d f n) s (fun b s' => PostS d (TTop s) 0 s s' (b = true) (MS none s'.tree))
+      (MS X none s'.tree ∧ live s.tree (La s'.tree (topOf s)) = false ∧ live s'.tree (La s'.tree (topOf s)) = true))
+  termList : ∀ {s : PState}, SP d s → MS X none s.tree → UnF X s (topOf s) → s.scopeStack.size ≠ 0 → Bud d 0 s →
+    NPs (termListLoop d f) s (fun b s' => PostS d (TTop s) 0 s s' (b = true) (MS X none s'.tree))
+  methodArgs : ∀ {s : PState} (n : Nat), SP d s → MS X none s.tree → UnF X s (topOf s) → s.scopeStack.size ≠ 0 → Bud d 0 s →
+    NPs (methodArgsLoop d f n) s (fun b s' => PostS d (TTop s) 0 s s' (b = true) (MS X none s'.tree))
   objArgs : ∀ {s : PState} (curObj : Nat), SP d s → live s.tree curObj = true →
     rowFacts (slot s.tree curObj).infoIndex = true → Att s (slot s.tree curObj).infoIndex curObj → Bud d 14 s →
-    MSx s (slot s.tree curObj).infoIndex curObj 0 →
+    MSx X s (slot s.tree curObj).infoIndex curObj 0 → UnF X s curObj →
     ((slot s.tree curObj).opcode = opMethod → (slot s.tree curObj).infoIndex = methodInfo) → ParNM s curObj →
-    NPs (parseObjectArgs d f curObj) s (fun res s' => PostS d (TCur s curObj) 14 s s' (res ≠ .failed) (MS none s'.tree))
+    NPs (parseObjectArgs d f curObj) s (fun res s' => PostS d (TCur s curObj) 14 s s' (res ≠ .failed) (MS X none s'.tree))
   args : ∀ {s : PState} (info curObj j : Nat), SP d s → live s.tree curObj = true → InfoOK info → rowFacts info = true →
-    j ≤ argCnt info → Bud d (2 * (7 - j)) s → Att s info curObj → PrevOK s info curObj j → MSx s info curObj j →
+    j ≤ argCnt info → Bud d (2 * (7 - j)) s → Att s info curObj → PrevOK s info curObj j → MSx X s info curObj j →
+    UnF X s curObj →
     ((slot s.tree curObj).opcode = opMethod → info = methodInfo) → ParNM s curObj →
-    NPs (parseArgs d f info curObj j) s (fun res s' => PostS d (TCur s curObj) (2 * (7 - j)) s s' (res ≠ .failed) (MS none s'.tree))
+    NPs (parseArgs d f info curObj j) s (fun res s' => PostS d (TCur s curObj) (2 * (7 - j)) s s' (res ≠ .failed) (MS X none s'.tree))
   arg : ∀ {s : PState} (info curObj argType : Nat) (ex : Option Nat), SP d s → live s.tree curObj = true → InfoOK info →
     Bud d 2 s →
     (argType = argTypeFieldList → C13.P s.tree curObj ≠ INV ∧ live s.tree (La s.tree curObj) = true ∧
       ∃ v, (slot s.tree (La s.tree curObj)).value = .u64 v) →
-    MS ex s.tree → (¬ Leaf argType → ex = none) →
+    MS X ex s.tree → UnF X s curObj → (¬ Leaf argType → ex = none) →
     ((slot s.tree curObj).opcode = opMethod → Leaf argType ∨ argType = argTypeTermList) → ParNM s curObj →
-    NPs (parseArg d f info curObj argType) s (fun a s' => PostS d (TCur s curObj) 2 s s' (a.2 ≠ .failed) (MS ex s'.tree) ∧
+    NPs (parseArg d f info curObj argType) s (fun a s' => PostS d (TCur s curObj) 2 s s' (a.2 ≠ .failed) (MS X ex s'.tree) ∧
       RetOK s s' a.1 ∧ (Leaf argType → ∀ x, live s.tree x = true → slot s'.tree x = slot s.tree x) ∧
       (argType = argTypeByteData → a.2 = .ok → ∃ x v, a.1 = some x ∧ (slot s'.tree x).value = .u64 v) ∧
       (argType = argTypePkgLen → a.1 = none) ∧ (isSimpleArg argType = true → a.2 = .ok → ∃ x, a.1 = some x) ∧
       (Leaf argType → a.2 = .ok ∨ a.2 = .failed))
   strictTermArg : ∀ {s : PState} (curObj : Nat), SP d s → live s.tree curObj = true →
-    (slot s.tree curObj).opcode ≠ opMethod → MS none s.tree → Bud d 2 s →
-    NPs (parseStrictTermArg d f curObj) s (fun a s' => PostS d (fun x => x = curObj) 2 s s' (a.2 ≠ .failed) (MS none s'.tree) ∧
+    (slot s.tree curObj).opcode ≠ opMethod → MS X none s.tree → UnF X s curObj → Bud d 2 s →
+    NPs (parseStrictTermArg d f curObj) s (fun a s' => PostS d (fun x => x = curObj) 2 s s' (a.2 ≠ .failed) (MS X none s'.tree) ∧
       RetOK s s' a.1)
-  target : ∀ {s : PState}, SP d s → MS none s.tree → Bud d 1 s →
-    NPs (parseTarget d f) s (fun a s' => PostS d (fun _ => False) 1 s s' (a.2 ≠ .failed) (MS none s'.tree) ∧ RetOK s s' a.1)
+  target : ∀ {s : PState}, SP d s → MS X none s.tree → UnF X s INV → Bud d 1 s →
+    NPs (parseTarget d f) s (fun a s' => PostS d (fun _ => False) 1 s s' (a.2 ≠ .failed) (MS X none s'.tree) ∧ RetOK s s' a.1)
 
 /-- the strict invariant after a step that left the stack alone -/
 theorem SP.step {d : Bytes} {s s' : PState} (h : SP d s) (hf : FP d s') (g : SGrow T c s s')
@@ -740,9 +1042,9 @@ theorem live_not_INV {t : ObjectTree} (w : WF t) : live t INV = false := by
   | true => exact absurd rfl (live_ne_INV w.size_le h)
 
 /-- `parseTarget()` in the strict mode -/
-theorem target_stepS {d : Bytes} (hd : d.size + 268435456 ≤ 4294967296) {f : Nat} (ih : SNP d f) {s : PState}
-    (hS : SP d s) (hms : MS none s.tree) (hb : Bud d 1 s) :
-    NPs (parseTarget d (f + 1)) s (fun a s' => PostS d (fun _ => False) 1 s s' (a.2 ≠ .failed) (MS none s'.tree) ∧ RetOK s s' a.1) := by
+theorem target_stepS {d : Bytes} (hd : d.size + 268435456 ≤ 4294967296) {f : Nat} (ih : SNP X d f) {s : PState}
+    (hS : SP d s) (hms : MS X none s.tree) (hu : UnF X s INV) (hb : Bud d 1 s) :
+    NPs (parseTarget d (f + 1)) s (fun a s' => PostS d (fun _ => False) 1 s s' (a.2 ≠ .failed) (MS X none s'.tree) ∧ RetOK s s' a.1) := by
   have hd' : d.size + 1024 ≤ 4294967296 := by omega
   have h := hS.fp
   unfold parseTarget
@@ -790,7 +1092,7 @@ theorem target_stepS {d : Bytes} (hd : d.size + 268435456 ≤ 4294967296) {f : N
       exact ⟨f6.nlive, f6.liven, f6.pn⟩
   · rw [if_pos hok]
     have g2 : SGrow (fun _ => False) 0 s1 s2 := SGrow.ofLex hs2 (by omega)
-    have post2 : PostS d (fun _ => False) 1 s1 s2 True (MS none s2.tree) :=
+    have post2 : PostS d (fun _ => False) 1 s1 s2 True (MS X none s2.tree) :=
       ⟨h2, g2.weaken (by omega), by rw [hsc2]; exact Nat.le_refl _, fun _ => ⟨hsc2, by rw [ht2]; exact hms⟩⟩
     by_cases hz : opr.1 = opZero
     · rw [if_pos hz]
@@ -824,16 +1126,18 @@ theorem target_stepS {d : Bytes} (hd : d.size + 268435456 ≤ 4294967296) {f : N
         have g4 : SGrow (TCur s4 n) 1 s2 s4 := SGrow.ofFresh1 f4
         have hb4 : Bud d 14 s4 := by
           have := budS hb2 g4 h4.inv.1 (by omega); exact this.mono (by omega)
-        have hms2 : MS none s2.tree := by rw [ht2]; exact hms
-        have hms4 : MS none s4.tree := hms2.fresh f4 (fun hq => absurd (hop4 ▸ hq) hnm)
+        have hms2 : MS X none s2.tree := by rw [ht2]; exact hms
+        have hms4 : MS X none s4.tree := hms2.fresh f4 (fun hq => absurd (hop4 ▸ hq) hnm)
         have hsc4 : s4.scopeStack = s1.scopeStack := by rw [f4.scope, hsc2]
         have g14 : SGrow (TCur s4 n) 1 s1 s4 := (SGrow.ofLex hs2 (by omega)).trans g4
         have hS4 : SP d s4 := hS.step h4 g14 (fun x hx => Or.inl (by rw [← hsc4]; exact hx))
+        have hn1 : live s1.tree n = false := by rw [← ht2]; exact f4.nlive
+        have hu4 : UnF X s4 n := ((hu.grow g14 h.tree.wf h4.tree.wf h.tree.root (Or.inl rfl)).orphan h4.tree.wf hobj4 f4.pn
+          (hu.notFresh hn1))
         have := ih.objArgs (s := s4) n hS4 hobj4 (by rw [hinfo4]; exact hrow) (Or.inr (by rw [hinfo4]; exact hnofl htop)) hb4
-          (MSx.ofBlank hms4 h4.tree.wf hobj4 f4.fin) (fun hq => absurd (hop4 ▸ hq) hnm) (Or.inl f4.pn)
+          (MSx.ofBlank hms4 h4.tree.wf hobj4 f4.fin) hu4 (fun hq => absurd (hop4 ▸ hq) hnm) (Or.inl f4.pn)
         refine NPs.bind this ?_
         intro res s5 ⟨h5, g5, hsz5, hok5⟩
-        have hn1 : live s1.tree n = false := by rw [← ht2]; exact f4.nlive
         refine NPs.pure ⟨⟨h5, ?_, by rw [← hsc4]; exact hsz5, fun hq => ⟨by rw [(hok5 hq).1, hsc4], (hok5 hq).2⟩⟩, ?_⟩
         · have g25 := SGrow.absorb hs2 hlt (g4.trans g5) (by omega)
           refine (g25.mono h.tree.wf ?_).weaken (by omega)
@@ -854,11 +1158,11 @@ theorem lex_of_eq {α : Type} {x : LexM α} {s : PState} {a : α} {r' : Reader} 
 theorem stack_pop_push (a : Array Nat) (x : Nat) : (a.push x).pop = a := Array.pop_push
 
 /-- `parseStrictTermArg(curObj)` -/
-theorem strictTermArg_stepS {d : Bytes} (hd : d.size + 268435456 ≤ 4294967296) {f : Nat} (ih : SNP d f) {s : PState}
+theorem strictTermArg_stepS {d : Bytes} (hd : d.size + 268435456 ≤ 4294967296) {f : Nat} (ih : SNP X d f) {s : PState}
     (curObj : Nat) (hS : SP d s) (hc : live s.tree curObj = true) (hnm : (slot s.tree curObj).opcode ≠ opMethod)
-    (hms : MS none s.tree) (hb : Bud d 2 s) :
+    (hms : MS X none s.tree) (hu : UnF X s curObj) (hb : Bud d 2 s) :
     NPs (parseStrictTermArg d (f + 1) curObj) s (fun a s' =>
-      PostS d (fun x => x = curObj) 2 s s' (a.2 ≠ .failed) (MS none s'.tree) ∧ RetOK s s' a.1) := by
+      PostS d (fun x => x = curObj) 2 s s' (a.2 ≠ .failed) (MS X none s'.tree) ∧ RetOK s s' a.1) := by
   have hd' : d.size + 1024 ≤ 4294967296 := by omega
   have h := hS.fp
   have w := h.tree.wf
@@ -927,9 +1231,9 @@ theorem strictTermArg_stepS {d : Bytes} (hd : d.size + 268435456 ≤ 4294967296)
         rw [this]; exact hinfo5
       have hnm6 : (slot s6.tree curObj).opcode ≠ opMethod := fun hq => hnm (by
         have := (g36.mK curObj hc3).1 hq; rw [ht3] at this; exact this)
-      have hms3 : MS none s3.tree := by rw [ht3]; exact hms
-      have hms5 : MS none s5.tree := hms3.fresh f5 (fun hq => absurd (hop5 ▸ hq) hnmo)
-      have hms6 : MS none s6.tree := hms5.append h5.tree.wf f5.pn hc5 hl6 sp6 hNx6 hFi6
+      have hms3 : MS X none s3.tree := by rw [ht3]; exact hms
+      have hms5 : MS X none s5.tree := hms3.fresh f5 (fun hq => absurd (hop5 ▸ hq) hnmo)
+      have hms6 : MS X none s6.tree := hms5.append h5.tree.wf f5.pn hc5 hl6 sp6 hNx6 hFi6
       have hfi6 : Fi s6.tree n = INV := by
         rw [hFi6, if_neg (fun hq => hcn hq.1.symm)]
         have : Fi s5.tree n = Fi s4.tree n := hp5.links.fi n
@@ -939,8 +1243,10 @@ theorem strictTermArg_stepS {d : Bytes} (hd : d.size + 268435456 ≤ 4294967296)
       have hsc6 : s6.scopeStack = s2.scopeStack := by rw [hs6]; show s5.scopeStack = _; rw [f5.scope, hsc3]
       have g26 : SGrow T2 1 s2 s6 := (SGrow.ofLex hs3' (by omega)).trans g36 |>.weaken (by omega)
       have hS6 : SP d s6 := hS.step h6 g26 (fun x hx => Or.inl (by rw [← hsc6]; exact hx))
+      have hu6 : UnF X s6 n := ((hu.grow g26 w h6.tree.wf h.tree.root (Or.inr hc)).child h6.tree.wf hobj6 hP6n
+        (hu.notFresh (by rw [← ht3]; exact hn3)))
       have := ih.objArgs (s := s6) n hS6 hobj6 (by rw [hinfo6]; exact hrow) (Or.inl (by rw [hP6n]; exact hcINV)) hb6
-        (MSx.ofBlank hms6 h6.tree.wf hobj6 hfi6) (fun hq => absurd (hop6 ▸ hq) hnmo) (Or.inr (by rw [hP6n]; exact hnm6))
+        (MSx.ofBlank hms6 h6.tree.wf hobj6 hfi6) hu6 (fun hq => absurd (hop6 ▸ hq) hnmo) (Or.inr (by rw [hP6n]; exact hnm6))
       refine NPs.bind this ?_
       intro res s7 ⟨h7, g7, hsz7, hok7⟩
       have g67 : SGrow T2 14 s6 s7 := g7.mono h6.tree.wf (fun x _ hT => by
@@ -1004,7 +1310,8 @@ theorem strictTermArg_stepS {d : Bytes} (hd : d.size + 268435456 ≤ 4294967296)
       · rw [hx]; exact hnm
     have htopA : topOf sA = curObj := topOf_push s2 curObj hscA
     have hbA : Bud d 0 sA := by unfold Bud at hb ⊢; rw [htA, hrA]; omega
-    have := ih.namePath (s := sA) hSA (by rw [htA]; exact hms) (by rw [hscA]; simp) hbA
+    have huA : UnF X sA (topOf sA) := by rw [htopA]; exact hu.ofTree htA
+    have := ih.namePath (s := sA) hSA (by rw [htA]; exact hms) huA (by rw [hscA]; simp) hbA
     refine NPs.bind this ?_
     intro res sB ⟨hB, gB, hszB, hokB⟩
     rw [htopA] at hokB
@@ -1042,8 +1349,8 @@ theorem strictTermArg_stepS {d : Bytes} (hd : d.size + 268435456 ≤ 4294967296)
       have g2D : SGrow (fun x => x = curObj) 0 s2 sD :=
         g2C.thenDetach hsD hszD hlD hPD hnew (Or.inl rfl) hC.tree.wf htl hlaP spD hNxD hFiD
       have hnmC : (slot sC.tree curObj).opcode ≠ opMethod := fun hq => hnm ((g2C.mK curObj hc).1 hq)
-      have hmsD : MS none sD.tree := by
-        have q2' : MS none sC.tree := by rw [htC]; exact q2
+      have hmsD : MS X none sD.tree := by
+        have q2' : MS X none sC.tree := by rw [htC]; exact q2
         exact q2'.detach hC.tree.wf htl hlaP (fun m hm ho _ => absurd (hm ▸ ho) hnmC) hlD spD hNxD hFiD
       have hscD : sD.scopeStack = s2.scopeStack := by
         rw [hsD]; show sC.scopeStack = _
@@ -1103,10 +1410,10 @@ theorem SP.push {d : Bytes} {s sA : PState} (hS : SP d s) {x : Nat} (hx : live s
     · rw [hy]; exact hnm
 
 /-- `parseNamePathOrMethodCall()` in the strict mode -/
-theorem namePath_stepS {d : Bytes} (hd : d.size + 268435456 ≤ 4294967296) {f : Nat} (ih : SNP d f) {s : PState}
-    (hS : SP d s) (hms : MS none s.tree) (hne : s.scopeStack.size ≠ 0) (hb : Bud d 0 s) :
+theorem namePath_stepS {d : Bytes} (hd : d.size + 268435456 ≤ 4294967296) {f : Nat} (ih : SNP X d f) {s : PState}
+    (hS : SP d s) (hms : MS X none s.tree) (hu : UnF X s (topOf s)) (hne : s.scopeStack.size ≠ 0) (hb : Bud d 0 s) :
     NPs (parseNamePathOrMethodCall d (f + 1)) s (fun res s' => PostS d (TTop s) 0 s s' (res ≠ .failed)
-      (MS none s'.tree ∧ live s.tree (La s'.tree (topOf s)) = false ∧ live s'.tree (La s'.tree (topOf s)) = true)) := by
+      (MS X none s'.tree ∧ live s.tree (La s'.tree (topOf s)) = false ∧ live s'.tree (La s'.tree (topOf s)) = true)) := by
   have hd' : d.size + 1024 ≤ 4294967296 := by omega
   have h := hS.fp
   have w := h.tree.wf
@@ -1115,7 +1422,7 @@ theorem namePath_stepS {d : Bytes} (hd : d.size + 268435456 ≤ 4294967296) {f :
   refine NPs.step e1 ?_
   have hss : s1 = s := by rw [hs1, hR1.2]
   subst hss
-  obtain ⟨sr, s2, e2, h2, hR2, hs2⟩ := lex_step (rel_parseNameString d hd') h
+  obtain ⟨sr, s2, e2, h2, ⟨hR2, hlead2⟩, hs2⟩ := lex_step (rel_parseNameString' d hd') h
   refine NPs.step e2 ?_
   have ht2 : s2.tree = s1.tree := by rw [hs2]
   have hsc2 : s2.scopeStack = s1.scopeStack := by rw [hs2]
@@ -1123,7 +1430,7 @@ theorem namePath_stepS {d : Bytes} (hd : d.size + 268435456 ≤ 4294967296) {f :
     rw [hs2]; exact ⟨rfl, rfl, rfl⟩
   have g12 : ∀ T : Nat → Prop, SGrow T 0 s1 s2 := fun T => SGrow.ofLex hs2 hR2.2.1
   have fail2 : PostS d (TTop s1) 0 s1 s2 (PRes.failed ≠ .failed)
-      (MS none s2.tree ∧ live s1.tree (La s2.tree (topOf s1)) = false ∧ live s2.tree (La s2.tree (topOf s1)) = true) :=
+      (MS X none s2.tree ∧ live s1.tree (La s2.tree (topOf s1)) = false ∧ live s2.tree (La s2.tree (topOf s1)) = true) :=
     ⟨h2, g12 _, by rw [hsc2]; exact Nat.le_refl _, fun hq => absurd rfl hq⟩
   split
   · exact NPs.pure fail2
@@ -1140,12 +1447,33 @@ theorem namePath_stepS {d : Bytes} (hd : d.size + 268435456 ≤ 4294967296) {f :
     obtain ⟨esc, htopl, htopm⟩ := scopeCurrent_top h2 hne2
     have htop2 : topOf s2 = topOf s1 := by unfold topOf; rw [hsc2]
     rw [htop2] at esc htopl htopm
+    have htopl' : live s1.tree (topOf s1) = true := by rw [← ht2]; exact htopl
     refine NPs.step esc ?_
     refine NPs.step (a := s2.tree) (s1 := s2) rfl ?_
-    obtain ⟨anc, eanc, hanc⟩ := closestNamedAncestor_total' h2.tree.wf namedInfo
+    obtain ⟨anc0, eanc, hanc⟩ := closest_anc h2.tree.wf namedInfo
       (fun i hi => namedInfo_some (h2.tree.info i hi)) (topOf s1) htopl
     refine NPs.step (liftR_ok eanc s2) ?_
-    obtain ⟨ti, eti, hti⟩ := find_total' h2.tree.wf h2.tree.root anc hanc (sliceExpr d sr.1)
+    have hanc' : anc0 = INV ∨ live s2.tree anc0 = true := by
+      rcases hanc with h0 | h0
+      · exact Or.inl h0
+      · exact Or.inr h0.1
+    obtain ⟨ti, eti, hti⟩ := find_total' h2.tree.wf h2.tree.root anc0 hanc' (sliceExpr d sr.1)
+    have hsrok : sr.2 = .ok := by
+      by_cases hq : sr.2 = .ok
+      · exact hq
+      · exact absurd hq hok
+    -- an incomplete method left behind by an earlier table is not what the lookup returns
+    have hnotX : ti ≠ INV → live s2.tree ti = true → (slot s2.tree ti).opcode = opMethod → ¬ X ti := by
+      intro hti0 htl hmo hx
+      have hu2 : UnF X s2 (topOf s1) := hu.ofTree ht2
+      obtain ⟨hn0, h00, href⟩ := (hu2 ti hx).2 hmo
+      have hsanc : anc0 = INV ∨ (live s2.tree anc0 = true ∧ ¬ anc s2.tree ti anc0) := by
+        rcases hanc with h0 | h0
+        · exact Or.inl h0
+        · exact Or.inr ⟨h0.1, fun ha => href (h0.2 ti ha)⟩
+      have := find_avoid h2.tree.wf h2.tree.root hn0 h00 anc0 hsanc (sliceExpr d sr.1)
+        (fun _ b hb => hlead2 hsrok b hb) ti eti hti0
+      exact this.2 (h2.tree.wf.anc_self htl)
     refine NPs.step (liftR_ok eti s2) ?_
     by_cases hinv : ti = invalidIndex
     · rw [if_pos hinv]
@@ -1190,9 +1518,9 @@ theorem namePath_stepS {d : Bytes} (hd : d.size + 268435456 ≤ 4294967296) {f :
       have hti6 : live s6.tree ti = true := g26.oldLive _ htil
       refine NPs.step (derefP_some_ex _) ?_
       refine NPs.step (getObj_live hti6) ?_
-      have hms2 : MS none s2.tree := by rw [ht2]; exact hms
-      have hms5 : MS none s5.tree := hms2.fresh f5 (fun hq => absurd (hop5 ▸ hq) (by decide))
-      have hms6 : MS none s6.tree := hms5.append h5.tree.wf f5.pn htop5l hl6 sp6 hNx6 hFi6
+      have hms2 : MS X none s2.tree := by rw [ht2]; exact hms
+      have hms5 : MS X none s5.tree := hms2.fresh f5 (fun hq => absurd (hop5 ▸ hq) (by decide))
+      have hms6 : MS X none s6.tree := hms5.append h5.tree.wf f5.pn htop5l hl6 sp6 hNx6 hFi6
       have hsc6 : s6.scopeStack = s1.scopeStack := by rw [hs6]; show s5.scopeStack = _; rw [f5.scope, hsc2]
       have hn1 : live s1.tree n = false := by rw [← ht2]; exact hn2
       have htopn : topOf s1 ≠ n := fun e => by rw [e, hn2] at htopl; cases htopl
@@ -1217,7 +1545,8 @@ theorem namePath_stepS {d : Bytes} (hd : d.size + 268435456 ≤ 4294967296) {f :
           exact ⟨fun hq => absurd (show opIntMethodCall = pOpIntFreedObject from hq) (by decide), fun hq => absurd hq (live_opcode hobj6)⟩
         obtain ⟨s7, e7, h7, hp7, hsl7, hr7⟩ := upd_step h6 hobj6 (fun o => { o with opcode := opIntMethodCall }) (by keeps_links) hl7
           (h6.tree.info _ hobj6)
-          ⟨fun hq => absurd (show opIntMethodCall = opMethod from hq) (by decide), fun hq => absurd (hop6 ▸ hq) (by decide)⟩
+          (Or.inr ⟨by rw [hop6]; decide, (show isK opIntMethodCall = false by decide)⟩)
+          (fun hq => absurd (hop6 ▸ hq : isK opIntResolvedNamePath = true) (by decide))
         refine NPs.step e7 ?_
         have hobj7 : live s7.tree n = true := by rw [hp7.links.live]; exact hobj6
         obtain ⟨s8, e8, h8, hp8, hsl8, hr8⟩ := upd_step h7 hobj7
@@ -1231,8 +1560,8 @@ theorem namePath_stepS {d : Bytes} (hd : d.size + 268435456 ≤ 4294967296) {f :
           intro hq
           have := (g26.mK _ htopl).1 hq
           rw [ht2] at this; exact h0 this
-        have hms8 : MS none s8.tree := hms6.pay h6.tree.wf hp68 (Or.inr (by rw [hP6n]; exact htopnm))
-        have g68 : SGrow T3 0 s6 s8 := SGrow.ofPay hp68 (Or.inr (by rw [hP6n]; exact Or.inl rfl))
+        have hms8 : MS X none s8.tree := hms6.pay h6.tree.wf hp68 (Or.inr (by rw [hP6n]; exact htopnm))
+        have g68 : SGrow T3 0 s6 s8 := SGrow.ofPay hp68 (Or.inr (by rw [hP6n]; exact Or.inl rfl)) (Or.inr rfl) hobj6
         have g28 : SGrow T3 1 s2 s8 := g26.trans g68
         refine NPs.step (getObj_live hobj8) ?_
         have hidx8 : (slot s8.tree n).index = n := h8.tree.wf.index_eq n (live_lt hobj8)
@@ -1255,6 +1584,7 @@ theorem namePath_stepS {d : Bytes} (hd : d.size + 268435456 ≤ 4294967296) {f :
         have htin : ti ≠ n := fun e => by rw [e, hn2] at htil; cases htil
         have hmeth8 : (slot s8.tree ti).opcode = opMethod := by rw [hp68.others ti htin]; exact hmeth
         have hsh := hms8 ti hti8 hmeth8 (by intro hq; cases hq)
+          (hnotX hinv htil ((g26.mK ti htil).1 hmeth))
         have eArg := hsh.argAt h8.tree.wf hti8
         rw [← ht9] at eArg
         refine NPs.step (liftR_ok eArg s9) ?_
@@ -1265,7 +1595,12 @@ theorem namePath_stepS {d : Bytes} (hd : d.size + 268435456 ≤ 4294967296) {f :
         have hb9 : Bud d 0 s9 := by
           have := budS hb2 g28 h8.inv.1 (by omega)
           unfold Bud at this ⊢; rw [ht9, hr9]; omega
-        have := ih.methodArgs (s := s9) (v &&& 7) hS9 (by rw [ht9]; exact hms8) (by rw [hsc9]; simp) hb9
+        have htop9' : topOf s9 = n := topOf_push s8 n hsc9
+        have hu9 : UnF X s9 (topOf s9) := by
+          rw [htop9']
+          have hu8 : UnF X s8 (topOf s1) := hu.grow g18 w h8.tree.wf h.tree.root (Or.inr htopl')
+          exact (hu8.child h8.tree.wf hobj8 (by rw [hp68.links.p]; exact hP6n) (hu.notFresh hn1)).ofTree ht9
+        have := ih.methodArgs (s := s9) (v &&& 7) hS9 (by rw [ht9]; exact hms8) hu9 (by rw [hsc9]; simp) hb9
         refine NPs.bind this ?_
         intro b s10 ⟨h10, g10, hsz10, hok10⟩
         have htop9 : topOf s9 = n := topOf_push s8 n hsc9
@@ -1324,37 +1659,40 @@ theorem PostS.seq {d : Bytes} {s s1 s2 : PState} {ok2 extra : Prop} (w : WF s.tr
   exact ⟨h2, g1.trans g2', by rw [← hst]; exact hz2, fun hq => ⟨by rw [(hk2 hq).1, hst], (hk2 hq).2⟩⟩
 
 /-- what the two loops need after one successful `parseNextObject` -/
-theorem after_next {d : Bytes} {s s1 : PState} (hS : SP d s) (hne : s.scopeStack.size ≠ 0) (hb : Bud d 0 s)
-    (p : PostS d (TTop s) 0 s s1 True (MS none s1.tree)) :
-    SP d s1 ∧ MS none s1.tree ∧ s1.scopeStack.size ≠ 0 ∧ Bud d 0 s1 := by
+theorem after_next {d : Bytes} {s s1 : PState} (hS : SP d s) (hu : UnF X s (topOf s)) (hne : s.scopeStack.size ≠ 0)
+    (hb : Bud d 0 s) (p : PostS d (TTop s) 0 s s1 True (MS X none s1.tree)) :
+    SP d s1 ∧ MS X none s1.tree ∧ UnF X s1 (topOf s1) ∧ s1.scopeStack.size ≠ 0 ∧ Bud d 0 s1 := by
   obtain ⟨h1, g1, _, hk⟩ := p
   obtain ⟨hst, hms1⟩ := hk trivial
-  refine ⟨hS.step h1 g1 (fun x hx => Or.inl (by rw [← hst]; exact hx)), hms1, by rw [hst]; exact hne, ?_⟩
-  have := budS hb g1 h1.inv.1 (Nat.le_refl _)
-  exact this
+  obtain ⟨_, htopl, _⟩ := scopeCurrent_top hS.fp hne
+  have htop : topOf s1 = topOf s := by unfold topOf; rw [hst]
+  refine ⟨hS.step h1 g1 (fun x hx => Or.inl (by rw [← hst]; exact hx)), hms1, ?_, by rw [hst]; exact hne, ?_⟩
+  · rw [htop]; exact hu.grow g1 hS.fp.tree.wf h1.tree.wf hS.fp.tree.root (Or.inr htopl)
+  · have := budS hb g1 h1.inv.1 (Nat.le_refl _)
+    exact this
 
-theorem methodArgs_stepS {d : Bytes} {f : Nat} (ih : SNP d f) {s : PState} (n : Nat)
-    (hS : SP d s) (hms : MS none s.tree) (hne : s.scopeStack.size ≠ 0) (hb : Bud d 0 s) :
-    NPs (methodArgsLoop d (f + 1) n) s (fun b s' => PostS d (TTop s) 0 s s' (b = true) (MS none s'.tree)) := by
+theorem methodArgs_stepS {d : Bytes} {f : Nat} (ih : SNP X d f) {s : PState} (n : Nat)
+    (hS : SP d s) (hms : MS X none s.tree) (hu : UnF X s (topOf s)) (hne : s.scopeStack.size ≠ 0) (hb : Bud d 0 s) :
+    NPs (methodArgsLoop d (f + 1) n) s (fun b s' => PostS d (TTop s) 0 s s' (b = true) (MS X none s'.tree)) := by
   unfold methodArgsLoop
   cases n with
   | zero => exact NPs.pure ⟨hS.fp, SGrow.refl s, Nat.le_refl _, fun _ => ⟨rfl, hms⟩⟩
   | succ n =>
-    refine NPs.bind (ih.next hS hms hne hb) ?_
+    refine NPs.bind (ih.next hS hms hu hne hb) ?_
     intro res s1 p1
     by_cases hok : res = .ok
     · rw [if_neg (fun hq => hq hok)]
-      have p1' : PostS d (TTop s) 0 s s1 True (MS none s1.tree) := ⟨p1.1, p1.2.1, p1.2.2.1, fun _ => p1.2.2.2 (by rw [hok]; decide)⟩
-      obtain ⟨hS1, hms1, hne1, hb1⟩ := after_next hS hne hb p1'
-      refine (ih.methodArgs n hS1 hms1 hne1 hb1).mono ?_
+      have p1' : PostS d (TTop s) 0 s s1 True (MS X none s1.tree) := ⟨p1.1, p1.2.1, p1.2.2.1, fun _ => p1.2.2.2 (by rw [hok]; decide)⟩
+      obtain ⟨hS1, hms1, hu1, hne1, hb1⟩ := after_next hS hu hne hb p1'
+      refine (ih.methodArgs n hS1 hms1 hu1 hne1 hb1).mono ?_
       intro b s2 p2
       exact PostS.seq hS.fp.tree.wf ⟨p1'.1, p1'.2.1, p1'.2.2.1, fun _ => ⟨(p1'.2.2.2 trivial).1, trivial⟩⟩ p2
     · rw [if_pos hok]
       exact NPs.pure ⟨p1.1, p1.2.1, p1.2.2.1, fun hq => by cases hq⟩
 
-theorem termList_stepS {d : Bytes} {f : Nat} (ih : SNP d f) {s : PState}
-    (hS : SP d s) (hms : MS none s.tree) (hne : s.scopeStack.size ≠ 0) (hb : Bud d 0 s) :
-    NPs (termListLoop d (f + 1)) s (fun b s' => PostS d (TTop s) 0 s s' (b = true) (MS none s'.tree)) := by
+theorem termList_stepS {d : Bytes} {f : Nat} (ih : SNP X d f) {s : PState}
+    (hS : SP d s) (hms : MS X none s.tree) (hu : UnF X s (topOf s)) (hne : s.scopeStack.size ≠ 0) (hb : Bud d 0 s) :
+    NPs (termListLoop d (f + 1)) s (fun b s' => PostS d (TTop s) 0 s s' (b = true) (MS X none s'.tree)) := by
   unfold termListLoop
   obtain ⟨b, s0, e0, h0, hR0, hs0⟩ := lex_step (rel_eof d) hS.fp
   refine NPs.step e0 ?_
@@ -1366,22 +1704,22 @@ theorem termList_stepS {d : Bytes} {f : Nat} (ih : SNP d f) {s : PState}
     exact NPs.pure ⟨hS.fp, SGrow.refl s0, Nat.le_refl _, fun _ => ⟨rfl, hms⟩⟩
   | false =>
     rw [if_neg (by decide)]
-    refine NPs.bind (ih.next hS hms hne hb) ?_
+    refine NPs.bind (ih.next hS hms hu hne hb) ?_
     intro res s1 p1
     by_cases hok : res = .ok
     · rw [if_neg (fun hq => hq hok)]
-      have p1' : PostS d (TTop s0) 0 s0 s1 True (MS none s1.tree) := ⟨p1.1, p1.2.1, p1.2.2.1, fun _ => p1.2.2.2 (by rw [hok]; decide)⟩
-      obtain ⟨hS1, hms1, hne1, hb1⟩ := after_next hS hne hb p1'
-      refine (ih.termList hS1 hms1 hne1 hb1).mono ?_
+      have p1' : PostS d (TTop s0) 0 s0 s1 True (MS X none s1.tree) := ⟨p1.1, p1.2.1, p1.2.2.1, fun _ => p1.2.2.2 (by rw [hok]; decide)⟩
+      obtain ⟨hS1, hms1, hu1, hne1, hb1⟩ := after_next hS hu hne hb p1'
+      refine (ih.termList hS1 hms1 hu1 hne1 hb1).mono ?_
       intro b s2 p2
       exact PostS.seq hS.fp.tree.wf ⟨p1'.1, p1'.2.1, p1'.2.2.1, fun _ => ⟨(p1'.2.2.2 trivial).1, trivial⟩⟩ p2
     · rw [if_pos hok]
       exact NPs.pure ⟨p1.1, p1.2.1, p1.2.2.1, fun hq => by cases hq⟩
 
 /-- `parseNextObject()` in the strict mode -/
-theorem next_stepS {d : Bytes} (hd : d.size + 268435456 ≤ 4294967296) {f : Nat} (ih : SNP d f) {s : PState}
-    (hS : SP d s) (hms : MS none s.tree) (hne : s.scopeStack.size ≠ 0) (hb : Bud d 0 s) :
-    NPs (parseNextObject d (f + 1)) s (fun res s' => PostS d (TTop s) 0 s s' (res ≠ .failed) (MS none s'.tree)) := by
+theorem next_stepS {d : Bytes} (hd : d.size + 268435456 ≤ 4294967296) {f : Nat} (ih : SNP X d f) {s : PState}
+    (hS : SP d s) (hms : MS X none s.tree) (hu : UnF X s (topOf s)) (hne : s.scopeStack.size ≠ 0) (hb : Bud d 0 s) :
+    NPs (parseNextObject d (f + 1)) s (fun res s' => PostS d (TTop s) 0 s s' (res ≠ .failed) (MS X none s'.tree)) := by
   have hd' : d.size + 1024 ≤ 4294967296 := by omega
   have h := hS.fp
   have w := h.tree.wf
@@ -1399,7 +1737,7 @@ theorem next_stepS {d : Bytes} (hd : d.size + 268435456 ≤ 4294967296) {f : Nat
     rw [if_neg (by rw [hop]; decide), if_pos hfail]
     have hss2 : s2 = s1 := by rw [hs2, hr2]
     subst hss2
-    refine (ih.namePath hS hms hne hb).mono ?_
+    refine (ih.namePath hS hms hu hne hb).mono ?_
     intro res s' p
     exact ⟨p.1, p.2.1, p.2.2.1, fun hq => ⟨(p.2.2.2 hq).1, (p.2.2.2 hq).2.1⟩⟩
   · by_cases hnoop : opr.1 = opNoop
@@ -1441,9 +1779,9 @@ theorem next_stepS {d : Bytes} (hd : d.size + 268435456 ≤ 4294967296) {f : Nat
       have hinfo6 : (slot s6.tree n).infoIndex = pOpcodeTableIndex opr.1 true := by
         have : (slot s6.tree n).infoIndex = (slot s4.tree n).infoIndex := congrArg (fun p => p.2.1) (sp6.pay n)
         rw [this]; exact hinfo4
-      have hms2 : MS (some n) s2.tree := by rw [ht2]; exact hms.weaken _
-      have hms4 : MS (some n) s4.tree := hms2.fresh f4 (fun _ => rfl)
-      have hms6 : MS (some n) s6.tree := hms4.append h4.tree.wf f4.pn htop4l hl6 sp6 hNx6 hFi6
+      have hms2 : MS X (some n) s2.tree := by rw [ht2]; exact hms.weaken _
+      have hms4 : MS X (some n) s4.tree := hms2.fresh f4 (fun _ => rfl)
+      have hms6 : MS X (some n) s6.tree := hms4.append h4.tree.wf f4.pn htop4l hl6 sp6 hNx6 hFi6
       have hn1 : live s1.tree n = false := by rw [← ht2]; exact hn2
       have htopn : topOf s1 ≠ n := fun e => by rw [e, hn1] at htopl; cases htopl
       have htopINV : topOf s1 ≠ INV := live_ne_INV w.size_le htopl
@@ -1462,13 +1800,15 @@ theorem next_stepS {d : Bytes} (hd : d.size + 268435456 ≤ 4294967296) {f : Nat
       have hsc6 : s6.scopeStack = s1.scopeStack := by rw [hs6]; show s4.scopeStack = _; rw [f4.scope, hsc2]
       have g16 : SGrow T3 1 s1 s6 := ((SGrow.ofLex hs2 (by omega) : SGrow T3 0 s1 s2).trans g26).weaken (by omega)
       have hS6 : SP d s6 := hS.step h6 g16 (fun x hx => Or.inl (by rw [← hsc6]; exact hx))
-      have hmsx : MSx s6 (slot s6.tree n).infoIndex n 0 := by
+      have hmsx : MSx X s6 (slot s6.tree n).infoIndex n 0 := by
         apply MSx.ofBlank' hms6 _ h6.tree.wf hobj6 hfi6
         intro hi hq
         apply hi
         rw [hinfo6, ← hop6, hq]; rfl
+      have hu6 : UnF X s6 n := ((hu.grow g16 w h6.tree.wf h.tree.root (Or.inr htopl)).child h6.tree.wf hobj6 hP6n
+        (hu.notFresh hn1))
       have := ih.objArgs (s := s6) n hS6 hobj6 (by rw [hinfo6]; exact hrow) (Or.inl (by rw [hP6n]; exact htopINV)) hb6
-        hmsx (fun hq => by rw [hinfo6, ← hop6, hq]; rfl) (Or.inr (by rw [hP6n]; exact htopnm))
+        hmsx hu6 (fun hq => by rw [hinfo6, ← hop6, hq]; rfl) (Or.inr (by rw [hP6n]; exact htopnm))
       refine this.mono ?_
       intro res s7 ⟨h7, g7, hsz7, hok7⟩
       have g67 : SGrow T3 14 s6 s7 := g7.mono h6.tree.wf (fun x _ hT => by
@@ -1518,15 +1858,15 @@ theorem leaf_not : ¬ Leaf argTypeByteList ∧ ¬ Leaf argTypeFieldList ∧ ¬ L
   refine ⟨?_, ?_, ?_, ?_, ?_⟩ <;> decide
 
 /-- `parseArg(info, curObj, argType)` in the strict mode -/
-theorem arg_stepS {d : Bytes} (hd : d.size + 268435456 ≤ 4294967296) {f : Nat} (ih : SNP d f) {s : PState}
+theorem arg_stepS {d : Bytes} (hd : d.size + 268435456 ≤ 4294967296) {f : Nat} (ih : SNP X d f) {s : PState}
     (info curObj argType : Nat) (ex : Option Nat) (hS : SP d s) (hc : live s.tree curObj = true) (hinfo : InfoOK info)
     (hb : Bud d 2 s)
     (hfl : argType = argTypeFieldList → C13.P s.tree curObj ≠ INV ∧ live s.tree (La s.tree curObj) = true ∧
       ∃ v, (slot s.tree (La s.tree curObj)).value = .u64 v)
-    (hms : MS ex s.tree) (hex : ¬ Leaf argType → ex = none)
+    (hms : MS X ex s.tree) (hu : UnF X s curObj) (hex : ¬ Leaf argType → ex = none)
     (hmeth : (slot s.tree curObj).opcode = opMethod → Leaf argType ∨ argType = argTypeTermList) (hpar : ParNM s curObj) :
     NPs (parseArg d (f + 1) info curObj argType) s (fun a s' =>
-      PostS d (TCur s curObj) 2 s s' (a.2 ≠ .failed) (MS ex s'.tree) ∧
+      PostS d (TCur s curObj) 2 s s' (a.2 ≠ .failed) (MS X ex s'.tree) ∧
       RetOK s s' a.1 ∧ (Leaf argType → ∀ x, live s.tree x = true → slot s'.tree x = slot s.tree x) ∧
       (argType = argTypeByteData → a.2 = .ok → ∃ x v, a.1 = some x ∧ (slot s'.tree x).value = .u64 v) ∧
       (argType = argTypePkgLen → a.1 = none) ∧ (isSimpleArg argType = true → a.2 = .ok → ∃ x, a.1 = some x) ∧
@@ -1540,7 +1880,7 @@ theorem arg_stepS {d : Bytes} (hd : d.size + 268435456 ≤ 4294967296) {f : Nat}
   · rw [if_pos hsimple]
     obtain ⟨a, s', n, e, h', f', hnm', hres⟩ := parseSimpleArg_tot hd' h hszlt argType
     refine NPs.of_eq e ⟨⟨h', (SGrow.ofFresh1 f').weaken (by omega), by rw [f'.scope]; exact Nat.le_refl _,
-      fun _ => ⟨f'.scope, hms.fresh f' (fun hq => absurd hq hnm')⟩⟩, ?_, fun _ x hx => f'.old x (f'.ne hx), ?_,
+      fun _ => ⟨f'.scope, hms.fresh f' (fun hq => by rw [hq, isK_method] at hnm'; cases hnm')⟩⟩, ?_, fun _ x hx => f'.old x (f'.ne hx), ?_,
       fun hq => (by rw [hq] at hsimple; exact absurd hsimple (by decide)), ?_, ?_⟩
     · intro x hx
       rcases hres with ⟨ha, _, _⟩ | ha
@@ -1641,7 +1981,7 @@ theorem arg_stepS {d : Bytes} (hd : d.size + 268435456 ≤ 4294967296) {f : Nat}
               rcases hmeth ho with hq | hq
               · exact hnl hq
               · rcases hta with hq2 | hq2 <;> rw [hq2] at hq <;> cases hq
-            refine (ih.strictTermArg curObj hS hc hnmc hms hb).mono ?_
+            refine (ih.strictTermArg curObj hS hc hnmc hms hu hb).mono ?_
             intro a s' ⟨⟨h', g', hsz', hok'⟩, hret⟩
             refine ⟨⟨h', g'.mono w (fun x _ hT => Or.inl hT), hsz', hok'⟩, hret, fun hl => absurd hl hnl, ?_,
               fun hq => absurd hq hpk, fun hq => absurd hq hsimple, fun hl => absurd hl hnl⟩
@@ -1673,8 +2013,8 @@ theorem arg_stepS {d : Bytes} (hd : d.size + 268435456 ≤ 4294967296) {f : Nat}
               refine NPs.step e2 ?_
               have hc1 : live s1.tree curObj = true := g1.oldLive _ hc
               have g2 : SGrow T4 1 s s2 := g1.thenAppend hs2 hsz2 hl2 hP2 hns (Or.inl (Or.inl (Or.inl rfl))) h1.tree.wf hc1 sp2 hNx2 hFi2
-              have hms1 : MS none s1.tree := by rw [ht1]; exact hms.fresh fm (fun hq => absurd (hopm ▸ hq) (by decide))
-              have hms2 : MS none s2.tree := hms1.append h1.tree.wf hp1 hc1 hl2 sp2 hNx2 hFi2
+              have hms1 : MS X none s1.tree := by rw [ht1]; exact hms.fresh fm (fun hq => absurd (hopm ▸ hq) (by decide))
+              have hms2 : MS X none s2.tree := hms1.append h1.tree.wf hp1 hc1 hl2 sp2 hNx2 hFi2
               have hsc2 : s2.scopeStack = s.scopeStack.push scope := by rw [hs2]; exact hsc1
               have hop2 : (slot s2.tree scope).opcode = opIntScopeBlock := by
                 have : (slot s2.tree scope).opcode = (slot s1.tree scope).opcode := congrArg (fun p => p.1) (sp2.pay scope)
@@ -1686,7 +2026,11 @@ theorem arg_stepS {d : Bytes} (hd : d.size + 268435456 ≤ 4294967296) {f : Nat}
                 · rw [hx, hop2]; exact Or.inr (by decide))
               have hb2 : Bud d 0 s2 := by have := budS hb g2 h2.inv.1 (by omega); exact this.mono (by omega)
               have htop2 : topOf s2 = scope := topOf_push s scope hsc2
-              have := ih.termList (s := s2) hS2 hms2 (by rw [hsc2]; simp) hb2
+              have hu2 : UnF X s2 (topOf s2) := by
+                rw [htop2]
+                exact (hu.grow g2 w h2.tree.wf h.tree.root (Or.inr hc)).child h2.tree.wf (by rw [hl2]; exact hl1)
+                  (by rw [hP2, if_pos rfl]) (hu.notFresh hns)
+              have := ih.termList (s := s2) hS2 hms2 hu2 (by rw [hsc2]; simp) hb2
               refine NPs.bind this ?_
               intro b s3 ⟨h3, g3, hsz3, hok3⟩
               have g23 : SGrow T4 0 s2 s3 := g3.mono h2.tree.wf (fun x _ hT => by
@@ -1734,12 +2078,12 @@ theorem arg_stepS {d : Bytes} (hd : d.size + 268435456 ≤ 4294967296) {f : Nat}
                   fun _ => ⟨by rw [hs5]; exact hsc4, ?_⟩⟩, ?_, fun hl => absurd hl hnl, fun hq => (by rw [htl] at hq; cases hq),
                   fun hq => absurd hq hpk, fun hq => absurd hq hsimple, fun hl => absurd hl hnl⟩
                 · -- a method keeps its name and its flags in front of the block
-                  have q2' : MS none s4.tree := by rw [ht4]; exact q2
+                  have q2' : MS X none s4.tree := by rw [ht4]; exact q2
                   apply q2'.detach h4.tree.wf hl4 hP4s _ hl5 sp5 hNx5 hFi5
-                  intro m hmo ho4 _
+                  intro m hmo ho4 _ _
                   subst hmo
                   have ho : (slot s.tree m).opcode = opMethod := (g04.mK m hc).1 ho4
-                  have hsh := hms m hc ho (by intro hq; cases hq)
+                  have hsh := hms m hc ho (by intro hq; cases hq) (hu.notSelf w hc ho)
                   obtain ⟨p1, p2, n1, n2⟩ := hsh.parents w hc
                   obtain ⟨v, l1, l2, _⟩ := hsh
                   have hmINV : m ≠ INV := live_ne_INV w.size_le hc
@@ -1784,25 +2128,26 @@ theorem arg_stepS {d : Bytes} (hd : d.size + 268435456 ≤ 4294967296) {f : Nat}
                 rcases hmeth ho with hq | hq
                 · exact hnl hq
                 · exact htl hq
-              refine (ih.target hS hms (hb.mono (by omega))).mono ?_
+              refine (ih.target hS hms (hu.toINV w) (hb.mono (by omega))).mono ?_
               intro a s' ⟨⟨h', g', hsz', hok'⟩, hret⟩
               refine ⟨⟨h', (g'.mono w (fun x _ hT => False.elim hT)).weaken (by omega), hsz', hok'⟩, hret,
                 fun hl => absurd hl hnl, ?_, fun hq => absurd hq hpk, fun hq => absurd hq hsimple, fun hl => absurd hl hnl⟩
               intro hq; rw [hq] at hsimple; exact absurd (by decide) hsimple
 
-theorem MS.close {t : ObjectTree} {c : Nat} (h : MS (some c) t) (hc : Sh t c) : MS none t := by
-  intro m hl ho _
+theorem MS.close {t : ObjectTree} {c : Nat} (h : MS X (some c) t) (hc : Sh t c) : MS X none t := by
+  intro m hl ho _ hx
   by_cases hm : m = c
   · rw [hm]; exact hc
-  · exact h m hl ho (by intro e; cases e; exact hm rfl)
+  · exact h m hl ho (by intro e; cases e; exact hm rfl) hx
 
 /-- `parseArgs(info, curObj, argOffset)` from argument `j` in the strict mode -/
-theorem args_stepS {d : Bytes} {f : Nat} (ih : SNP d f) {s : PState}
+theorem args_stepS {d : Bytes} {f : Nat} (ih : SNP X d f) {s : PState}
     (info curObj j : Nat) (hS : SP d s) (hc : live s.tree curObj = true) (hinfo : InfoOK info) (hrow : rowFacts info = true)
     (hj : j ≤ argCnt info) (hb : Bud d (2 * (7 - j)) s) (hatt : Att s info curObj) (hprev : PrevOK s info curObj j)
-    (hmsx : MSx s info curObj j) (hcons : (slot s.tree curObj).opcode = opMethod → info = methodInfo) (hpar : ParNM s curObj) :
+    (hmsx : MSx X s info curObj j) (hu : UnF X s curObj)
+    (hcons : (slot s.tree curObj).opcode = opMethod → info = methodInfo) (hpar : ParNM s curObj) :
     NPs (parseArgs d (f + 1) info curObj j) s (fun res s' =>
-      PostS d (TCur s curObj) (2 * (7 - j)) s s' (res ≠ .failed) (MS none s'.tree)) := by
+      PostS d (TCur s curObj) (2 * (7 - j)) s s' (res ≠ .failed) (MS X none s'.tree)) := by
   have h := hS.fp
   have w := h.tree.wf
   unfold parseArgs
@@ -1824,8 +2169,8 @@ theorem args_stepS {d : Bytes} {f : Nat} (ih : SNP d f) {s : PState}
       · exact absurd hq (noFL_at hno hj8)
     -- the exception of the method invariant while the name and the flags of a method are read
     let ex : Option Nat := if info = methodInfo ∧ j < 3 then some curObj else none
-    have hmsex : MS ex s.tree := by
-      show MS (if info = methodInfo ∧ j < 3 then some curObj else none) s.tree
+    have hmsex : MS X ex s.tree := by
+      show MS X (if info = methodInfo ∧ j < 3 then some curObj else none) s.tree
       split
       · exact hmsx.toSome
       · rename_i hq
@@ -1854,17 +2199,17 @@ theorem args_stepS {d : Bytes} {f : Nat} (ih : SNP d f) {s : PState}
       have hi := hcons ho
       rw [hi] at hlt ⊢
       exact method_arg_kinds hlt
-    have := ih.arg info curObj (argAt info j) ex hS hc hinfo (hb.mono (by omega)) hfl hmsex hex hmeth hpar
+    have := ih.arg info curObj (argAt info j) ex hS hc hinfo (hb.mono (by omega)) hfl hmsex hu hex hmeth hpar
     refine NPs.bind this ?_
     intro ⟨a1, a2⟩ s1 ⟨⟨h1, g1, hsz1, hok1⟩, hret, hleaf, hbd, hpkn, hsim, hlf⟩
     dsimp only at hok1 hret hbd hpkn hsim hlf ⊢
     have hc1 : live s1.tree curObj = true := g1.oldLive _ hc
     -- the rest of the loop from a state `s2` in which the returned object is the last argument of `curObj`
     have cont : ∀ s2 : PState, FP d s2 → SGrow (TCur s curObj) 2 s s2 → s2.scopeStack = s1.scopeStack →
-        (a2 ≠ .failed → MS ex s2.tree) →
-        (a2 = .ok → MSx s2 info curObj (j + 1) ∧ PrevOK s2 info curObj (j + 1)) →
+        (a2 ≠ .failed → MS X ex s2.tree) →
+        (a2 = .ok → MSx X s2 info curObj (j + 1) ∧ PrevOK s2 info curObj (j + 1)) →
         NPs (if a2 = .ok then parseArgs d f info curObj (j + 1) else pure a2) s2 (fun res s' =>
-          PostS d (TCur s curObj) (2 * (7 - j)) s s' (res ≠ .failed) (MS none s'.tree)) := by
+          PostS d (TCur s curObj) (2 * (7 - j)) s s' (res ≠ .failed) (MS X none s'.tree)) := by
       intro s2 h2 g2 hsc2 hgu hnext
       by_cases hok : a2 = .ok
       · rw [if_pos hok]
@@ -1891,7 +2236,8 @@ theorem args_stepS {d : Bytes} {f : Nat} (ih : SNP d f) {s : PState}
                 · exact absurd h0 hpi
                 · exact h0
               exact Or.inr (fun ho => hq ((g2.mK _ hpl).1 ho))
-        have := ih.args info curObj (j + 1) hS2 hc2 hinfo hrow (by omega) hb2 hatt2 hprev2 hmsx2 hcons2 hpar2
+        have hu2 : UnF X s2 curObj := hu.grow g2 w h2.tree.wf h.tree.root (Or.inr hc)
+        have := ih.args info curObj (j + 1) hS2 hc2 hinfo hrow (by omega) hb2 hatt2 hprev2 hmsx2 hu2 hcons2 hpar2
         refine this.mono ?_
         intro res s3 ⟨h3, g3, hsz3, hok3⟩
         have g3' : SGrow (TCur s curObj) (2 * (7 - (j + 1))) s2 s3 := by
@@ -1934,7 +2280,7 @@ theorem args_stepS {d : Bytes} {f : Nat} (ih : SNP d f) {s : PState}
             subst hj0
             have hl := hleaf (hleafM hi (by omega))
             obtain ⟨m0, f0, l0⟩ := hmsx.1 (by omega)
-            have hms1' : MS (some curObj) s1.tree := by
+            have hms1' : MS X (some curObj) s1.tree := by
               have : ex = some curObj := by
                 show (if info = methodInfo ∧ 0 < 3 then some curObj else none) = some curObj
                 rw [if_pos ⟨hi, by omega⟩]
@@ -1975,7 +2321,7 @@ theorem args_stepS {d : Bytes} {f : Nat} (ih : SNP d f) {s : PState}
       refine cont s2 h2 g2 (by rw [hs2]) (fun hq => (hok1 hq).2.append h1.tree.wf q3 hc1 hl2 sp2 hNx2 hFi2) ?_
       intro hok
       obtain ⟨_, hms1⟩ := hok1 (by rw [hok]; decide)
-      have hms2 : MS ex s2.tree := hms1.append h1.tree.wf q3 hc1 hl2 sp2 hNx2 hFi2
+      have hms2 : MS X ex s2.tree := hms1.append h1.tree.wf q3 hc1 hl2 sp2 hNx2 hFi2
       have hx2 : live s2.tree x = true := by rw [hl2]; exact q2
       constructor
       · unfold MSx
@@ -2052,27 +2398,27 @@ theorem args_stepS {d : Bytes} {f : Nat} (ih : SNP d f) {s : PState}
     · exact hmsx
 
 /-- `parseObjectArgs(curObj)` in the strict mode -/
-theorem objArgs_stepS {d : Bytes} {f : Nat} (ih : SNP d f) {s : PState} (curObj : Nat) (hS : SP d s)
+theorem objArgs_stepS {d : Bytes} {f : Nat} (ih : SNP X d f) {s : PState} (curObj : Nat) (hS : SP d s)
     (hc : live s.tree curObj = true) (hrow : rowFacts (slot s.tree curObj).infoIndex = true)
     (hatt : Att s (slot s.tree curObj).infoIndex curObj) (hb : Bud d 14 s)
-    (hmsx : MSx s (slot s.tree curObj).infoIndex curObj 0)
+    (hmsx : MSx X s (slot s.tree curObj).infoIndex curObj 0) (hu : UnF X s curObj)
     (hcons : (slot s.tree curObj).opcode = opMethod → (slot s.tree curObj).infoIndex = methodInfo) (hpar : ParNM s curObj) :
     NPs (parseObjectArgs d (f + 1) curObj) s (fun res s' =>
-      PostS d (TCur s curObj) 14 s s' (res ≠ .failed) (MS none s'.tree)) := by
+      PostS d (TCur s curObj) 14 s s' (res ≠ .failed) (MS X none s'.tree)) := by
   have h := hS.fp
   have w := h.tree.wf
   unfold parseObjectArgs
   refine NPs.step (getObj_live hc) ?_
   -- a constant: only the value of `curObj` changes
   have pay : ∀ {res : PRes} {s' : PState}, (slot s.tree curObj).opcode ≠ opMethod → FP d s' → PayOnly curObj s s' →
-      PostS d (TCur s curObj) 14 s s' ((if res = PRes.shortCircuit then PRes.ok else res) ≠ .failed) (MS none s'.tree) := by
+      PostS d (TCur s curObj) 14 s s' ((if res = PRes.shortCircuit then PRes.ok else res) ≠ .failed) (MS X none s'.tree) := by
     intro res s' hnm h' hp
-    refine ⟨h', (SGrow.ofPay hp (Or.inr (Or.inr rfl))).weaken (by omega), by rw [hp.scope]; exact Nat.le_refl _,
+    refine ⟨h', (SGrow.ofPay hp (Or.inr (Or.inr rfl)) (Or.inl rfl) hc).weaken (by omega), by rw [hp.scope]; exact Nat.le_refl _,
       fun _ => ⟨hp.scope, ?_⟩⟩
     exact (hmsx.toSome.ofSome hnm).pay w hp hpar
   have num : ∀ n, (slot s.tree curObj).opcode ≠ opMethod →
       NPs (setNumValue d curObj n >>= fun res => (pure (if res = PRes.shortCircuit then PRes.ok else res) : P PRes)) s
-        (fun res s' => PostS d (TCur s curObj) 14 s s' (res ≠ .failed) (MS none s'.tree)) := by
+        (fun res s' => PostS d (TCur s curObj) 14 s s' (res ≠ .failed) (MS X none s'.tree)) := by
     intro n hnm
     obtain ⟨res, s', e, h', hp, _, _⟩ := setNumValue_tot h hc n
     exact NPs.step e (NPs.pure (pay hnm h' hp))
@@ -2093,7 +2439,7 @@ theorem objArgs_stepS {d : Bytes} {f : Nat} (ih : SNP d f) {s : PState} (curObj 
             rw [hfl]
             refine NPs.step (optP_ex fl s) ?_
             have := ih.args (slot s.tree curObj).infoIndex curObj 0 hS hc hinfo hrow (Nat.zero_le _)
-              (hb.mono (by omega)) hatt (fun h0 => by omega) hmsx hcons hpar
+              (hb.mono (by omega)) hatt (fun h0 => by omega) hmsx hu hcons hpar
             refine NPs.bind this ?_
             intro res s' ⟨h', g', hsz', hok'⟩
             refine NPs.pure ⟨h', g', hsz', fun hq => hok' ?_⟩
@@ -2102,29 +2448,29 @@ theorem objArgs_stepS {d : Bytes} {f : Nat} (ih : SNP d f) {s : PState} (curObj 
             exact hq (by decide)
 
 /-- the strict-mode functions never end in `.panic`, for every amount of fuel -/
-theorem snp {d : Bytes} (hd : d.size + 268435456 ≤ 4294967296) (f : Nat) : SNP d f := by
+theorem snp {d : Bytes} (hd : d.size + 268435456 ≤ 4294967296) (f : Nat) : SNP X d f := by
   induction f with
   | zero =>
     refine ⟨?_, ?_, ?_, ?_, ?_, ?_, ?_, ?_, ?_⟩
-    · intro s _ _ _ _; unfold parseNextObject; exact NPs.fuel
-    · intro s _ _ _ _; unfold parseNamePathOrMethodCall; exact NPs.fuel
-    · intro s _ _ _ _; unfold termListLoop; exact NPs.fuel
-    · intro s n _ _ _ _; unfold methodArgsLoop; exact NPs.fuel
-    · intro s c _ _ _ _ _ _ _ _; unfold parseObjectArgs; exact NPs.fuel
-    · intro s i c j _ _ _ _ _ _ _ _ _ _ _; unfold parseArgs; exact NPs.fuel
-    · intro s i c a ex _ _ _ _ _ _ _ _ _; unfold parseArg; exact NPs.fuel
-    · intro s c _ _ _ _ _; unfold parseStrictTermArg; exact NPs.fuel
-    · intro s _ _ _; unfold parseTarget; exact NPs.fuel
+    · intro s _ _ _ _ _; unfold parseNextObject; exact NPs.fuel
+    · intro s _ _ _ _ _; unfold parseNamePathOrMethodCall; exact NPs.fuel
+    · intro s _ _ _ _ _; unfold termListLoop; exact NPs.fuel
+    · intro s n _ _ _ _ _; unfold methodArgsLoop; exact NPs.fuel
+    · intro s c _ _ _ _ _ _ _ _ _; unfold parseObjectArgs; exact NPs.fuel
+    · intro s i c j _ _ _ _ _ _ _ _ _ _ _ _; unfold parseArgs; exact NPs.fuel
+    · intro s i c a ex _ _ _ _ _ _ _ _ _ _; unfold parseArg; exact NPs.fuel
+    · intro s c _ _ _ _ _ _; unfold parseStrictTermArg; exact NPs.fuel
+    · intro s _ _ _ _; unfold parseTarget; exact NPs.fuel
   | succ f ih =>
-    exact ⟨fun hS hms hne hb => next_stepS hd ih hS hms hne hb,
-      fun hS hms hne hb => namePath_stepS hd ih hS hms hne hb,
-      fun hS hms hne hb => termList_stepS ih hS hms hne hb,
-      fun n hS hms hne hb => methodArgs_stepS ih n hS hms hne hb,
-      fun c hS hc hrow hatt hb hmsx hcons hpar => objArgs_stepS ih c hS hc hrow hatt hb hmsx hcons hpar,
-      fun i c j hS hc hinfo hrow hj hb hatt hprev hmsx hcons hpar => args_stepS ih i c j hS hc hinfo hrow hj hb hatt hprev hmsx hcons hpar,
-      fun i c a ex hS hc hinfo hb hfl hms hex hmeth hpar => arg_stepS hd ih i c a ex hS hc hinfo hb hfl hms hex hmeth hpar,
-      fun c hS hc hnm hms hb => strictTermArg_stepS hd ih c hS hc hnm hms hb,
-      fun hS hms hb => target_stepS hd ih hS hms hb⟩
+    exact ⟨fun hS hms hu hne hb => next_stepS hd ih hS hms hu hne hb,
+      fun hS hms hu hne hb => namePath_stepS hd ih hS hms hu hne hb,
+      fun hS hms hu hne hb => termList_stepS ih hS hms hu hne hb,
+      fun n hS hms hu hne hb => methodArgs_stepS ih n hS hms hu hne hb,
+      fun c hS hc hrow hatt hb hmsx hu hcons hpar => objArgs_stepS ih c hS hc hrow hatt hb hmsx hu hcons hpar,
+      fun i c j hS hc hinfo hrow hj hb hatt hprev hmsx hu hcons hpar => args_stepS ih i c j hS hc hinfo hrow hj hb hatt hprev hmsx hu hcons hpar,
+      fun i c a ex hS hc hinfo hb hfl hms hu hex hmeth hpar => arg_stepS hd ih i c a ex hS hc hinfo hb hfl hms hu hex hmeth hpar,
+      fun c hS hc hnm hms hu hb => strictTermArg_stepS hd ih c hS hc hnm hms hu hb,
+      fun hS hms hu hb => target_stepS hd ih hS hms hu hb⟩
 
 /-! ## one deferred block -/
 
@@ -2158,11 +2504,11 @@ never ends in `.panic`; whatever it returns, the tree is well formed again, the 
 there under the same parents, and on success every `Method` (including the ones the block declared) has its
 flags and the scope stack is as before. -/
 theorem parseDeferred_np {d : Bytes} (hd : d.size + 268435456 ≤ 4294967296) (fuel : Nat) {s : PState} (obj : Nat)
-    (h : FP d s) (hnm : StackNM s) (hms : MS none s.tree) (hobj : BlockOK s obj)
+    (h : FP d s) (hnm : StackNM s) (hms : MS X none s.tree) (hu : UnF X s obj) (hobj : BlockOK s obj)
     (hbud : s.tree.pool.size + 16 * d.size + 16 ≤ INV) :
     NPs (parseDeferred d fuel obj) s (fun res s' => FP d s' ∧
       (∀ x, live s.tree x = true → live s'.tree x = true ∧ C13.P s'.tree x = C13.P s.tree x) ∧
-      (res = .ok → MS none s'.tree ∧ s'.scopeStack = s.scopeStack)) := by
+      (res = .ok → MS X none s'.tree ∧ s'.scopeStack = s.scopeStack)) := by
   have hd' : d.size + 1024 ≤ 4294967296 := by omega
   unfold parseDeferred
   refine NPs.step (getObj_live hobj.live) ?_
@@ -2185,7 +2531,7 @@ theorem parseDeferred_np {d : Bytes} (hd : d.size + 268435456 ≤ 4294967296) (f
         popAllPkgEnds d ((← stackSizes).1 + 1)
         pure PRes.ok : P PRes) s4 (fun res s' => FP d s' ∧
           (∀ x, live s.tree x = true → live s'.tree x = true ∧ C13.P s'.tree x = C13.P s.tree x) ∧
-          (res = .ok → MS none s'.tree ∧ s'.scopeStack = s.scopeStack)) := by
+          (res = .ok → MS X none s'.tree ∧ s'.scopeStack = s.scopeStack)) := by
     intro s4 h4 hs4
     have ht4 : s4.tree = s.tree := by rw [hs4]; exact ht1
     have hsc4 : s4.scopeStack = s.scopeStack := by rw [hs4]; exact hsc1
@@ -2197,12 +2543,12 @@ theorem parseDeferred_np {d : Bytes} (hd : d.size + 268435456 ≤ 4294967296) (f
       unfold Bud; rw [ht4]
       have := h4.inv.1
       omega
-    have hmsx : MSx s4 (slot s4.tree obj).infoIndex obj 0 := by
+    have hmsx : MSx X s4 (slot s4.tree obj).infoIndex obj 0 := by
       unfold MSx
       rw [ht4, if_neg hobj.notMethod.2]
       exact hms
-    have := (snp hd fuel).objArgs (s := s4) obj hS4 (by rw [ht4]; exact hobj.live) (by rw [ht4]; exact hobj.row)
-      (Or.inl (by rw [ht4]; exact hobj.attached)) hb4 hmsx (fun hq => by rw [ht4] at hq; exact absurd hq hobj.notMethod.1)
+    have := (snp (X := X) hd fuel).objArgs (s := s4) obj hS4 (by rw [ht4]; exact hobj.live) (by rw [ht4]; exact hobj.row)
+      (Or.inl (by rw [ht4]; exact hobj.attached)) hb4 hmsx (hu.ofTree ht4) (fun hq => by rw [ht4] at hq; exact absurd hq hobj.notMethod.1)
       (Or.inr (by rw [ht4]; exact hobj.parent))
     refine NPs.bind this ?_
     intro res s5 ⟨h5, g5, _, hok5⟩
@@ -2238,15 +2584,29 @@ theorem shB_sound {t : ObjectTree} {m : Nat} (h : shB t m = true) : Sh t m := by
   | u64 v => exact ⟨v, h1, h2, hv⟩
   | _ => rw [hv] at h3; cases h3
 
-theorem msB_sound {t : ObjectTree} (h : msB t = true) : MS none t := by
-  unfold msB at h
-  simp only [List.all_eq_true, List.mem_range, Bool.or_eq_true, Bool.not_eq_true', Bool.and_eq_false_imp] at h
-  intro m hl ho _
-  rcases h m (live_lt hl) with h0 | h0
+/-- the incomplete methods of `t` -/
+def Inc (t : ObjectTree) : Nat → Prop := fun m => live t m = true ∧ (slot t m).opcode = opMethod ∧ ¬ Sh t m
+
+theorem ms_inc (t : ObjectTree) : MS (Inc t) none t := by
+  intro m hl ho _ hx
+  apply Classical.byContradiction
+  intro hsh
+  exact hx ⟨hl, ho, hsh⟩
+
+theorem unfB_sound {s : PState} {ref : Nat} (w : WF s.tree) (hroot : live s.tree 0 = true) (hr : live s.tree ref = true)
+    (h : unfB s.tree ref = true) : UnF (Inc s.tree) s ref := by
+  unfold unfB at h
+  simp only [List.all_eq_true, List.mem_range, Bool.or_eq_true, Bool.not_eq_true', Bool.and_eq_false_imp,
+    Bool.and_eq_true, beq_iff_eq] at h
+  intro g ⟨hl, ho, hns⟩
+  refine ⟨hl, fun _ => ?_⟩
+  rcases h g (live_lt hl) with (h0 | h0) | h0
   · have := h0 hl
     simp only [beq_eq_false_iff_ne, ne_eq] at this
     exact absurd ho this
-  · exact shB_sound h0
+  · exact absurd (shB_sound h0) hns
+  · obtain ⟨⟨hn, ha0⟩, har⟩ := h0
+    exact ⟨hn, w.not_anc hroot ha0, w.not_anc hr har⟩
 
 theorem stackNMb_sound {s : PState} (h : stackNMb s = true) : StackNM s := by
   unfold stackNMb at h
@@ -2271,23 +2631,28 @@ theorem blockOKb_sound {s : PState} {obj : Nat} (h : blockOKb s obj = true) : Bl
 
 /-- an input on which the oracle's audit of a block is silent satisfies the hypotheses of `parseDeferred_np` -/
 theorem blockAudit_sound {d : Bytes} {s : PState} {obj : Nat} (h : blockAudit d s obj = []) :
-    FP d s ∧ StackNM s ∧ MS none s.tree ∧ BlockOK s obj ∧ s.tree.pool.size + 16 * d.size + 16 ≤ INV := by
+    FP d s ∧ StackNM s ∧ MS (Inc s.tree) none s.tree ∧ UnF (Inc s.tree) s obj ∧ BlockOK s obj ∧
+    s.tree.pool.size + 16 * d.size + 16 ≤ INV := by
   unfold blockAudit at h
   simp only [List.append_eq_nil_iff] at h
   obtain ⟨⟨⟨⟨h1, h2⟩, h3⟩, h4⟩, h5⟩ := h
-  refine ⟨fpB_sound ?_, stackNMb_sound ?_, msB_sound ?_, blockOKb_sound ?_, ?_⟩
-  · by_cases hq : fpB d s = true
+  have hfp : FP d s := by
+    apply fpB_sound
+    by_cases hq : fpB d s = true
     · exact hq
     · rw [if_neg hq] at h1; cases h1
+  have hbo : BlockOK s obj := by
+    apply blockOKb_sound
+    by_cases hq : blockOKb s obj = true
+    · exact hq
+    · rw [if_neg hq] at h4; cases h4
+  refine ⟨hfp, stackNMb_sound ?_, ms_inc _, unfB_sound hfp.tree.wf hfp.tree.root hbo.live ?_, hbo, ?_⟩
   · by_cases hq : stackNMb s = true
     · exact hq
     · rw [if_neg hq] at h2; cases h2
-  · by_cases hq : msB s.tree = true
+  · by_cases hq : unfB s.tree obj = true
     · exact hq
     · rw [if_neg hq] at h3; cases h3
-  · by_cases hq : blockOKb s obj = true
-    · exact hq
-    · rw [if_neg hq] at h4; cases h4
   · by_cases hq : s.tree.pool.size + 16 * d.size + 16 ≤ INV
     · exact hq
     · rw [if_neg hq] at h5; cases h5
